@@ -12,2457 +12,1071 @@ Definition show_fres (r : fres) : string :=
   end.
 Definition check (rs : list rune) : string := digest (show_fres (format_res rs)).
 Definition full (rs : list rune) : string := show_fres (format_res rs).
-Eval vm_compute in ("<<<M4168>>>" ++ check (runes_of_ascii "options {
-    ArrayPrefixLenType = u16;
-    FixedStringPadFromLeft = true;
-    JavaPackage = ""co\
-        m.example.msg"";
-    GoPackage = ""ms\
-        g"";
-    GoModule = ""example.com/msg"";
-}
-
-MetaData Meta {
-    u32 SeqNum `sequence number`,
-    char[8] Symbol `symbol`,
-    zchar[5] ZSym `z symbol`,
-    string Note,
-    Symbol AltSymbol `alias of symbol`,
-    f64 Price,
-}
-
-packet Inner {
-    u8 a,
-    i16 b,
-    string c,
-}
-
-packet Inner2 {
-    u8 a2,
-    char[3] c2,
-}
-
-packet Logon {
-    u8 x,
-    string user,
-    repeat u16 codes,
-}
-
-packet Logout {
-    u16 reason,
-}
-
-packet Empty {
-}
-
-root packet Msg {
-    u8 su8,
-    uint8 luint8,
-    u16 su16,
-    uint16 luint16,
-    u32 su32,
-    uint32 luint32,
-    u64 su64,
-    uint64 luint64,
-    i8 si8,
-    int8 lint8,
-    i16 si16,
-    int16 lint16,
-    i32 si32,
-    int32 lint32,
-    i64 si64,
-    int64 lint64,
-    f32 sf32,
-    float32 lfloat32,
-    f64 sf64,
-    float64 lfloat64,
-    char[6] fsplain,
-    @leftPad('0')
-    char[4] fs0,
-    @rightPad('0')
-    char[5] fs1,
-    @leftPad(' ')
-    char[6] fs2,
-    @rightPad(' ')
-    char[7] fs3,
-    @leftPad('\x00')
-    char[8] fs4,
-    @rightPad('\x00')
-    char[9] fs5,
-    @leftPad()
-    char[10] fs6,
-    @rightPad()
-    char[11] fs7,
-    zchar[7] fz,
-    @leftPad('0')
-    zchar[3] fzl0,
-    string s1 `doc`,
-    char[] s2,
-    Inner,
-    Sub {
-        u8 q,
-        string w,
-        Deep {
-            u16 z,
-            repeat i32 zs,
-        },
+Eval vm_compute in ("<<<M1768>>>" ++ check (runes_of_ascii "packet Logon {
+    repeat string a1 `crlf
+        line`,
+    @lengthOf(Pad)
+    match Pad as u8x {
+        4294967296 : i8i8,
     },
-    repeat u8 ru8,
-    repeat u16 ru16,
-    repeat u32 ru32,
-    repeat u64 ru64,
-    repeat i8 ri8,
-    repeat i16 ri16,
-    repeat i32 ri32,
-    repeat i64 ri64,
-    repeat f32 rf32,
-    repeat f64 rf64,
-    repeat string rstr,
-    repeat char[] rstr2,
-    repeat char[3] rfs,
-    repeat zchar[3] rfz,
-    repeat Inner2,
-    repeat Grp {
-        u8 k,
-        char[2] v,
-    },
-    SeqNum,
-    SeqNum seq2,
-    repeat SeqNum seqs,
-    Symbol,
-    AltSymbol alt,
-    ZSym,
-    Note,
-    repeat Symbol syms,
-    Price px,
-    u16 MsgType,
-    u32 BodyLen @lengthOf(Body),
-    match MsgType as Body {
-        1 : Logon,
-        [2, 3] : Logout,
-        7 : Logon,
-        9 : Empty,
-    },
-    u32 Checksum @calculatedFrom(""CRC32""),
-}")).
-Eval vm_compute in ("<<<M928>>>" ++ check (runes_of_ascii "
-MetaData A
-{
-//
-// @lengthOf(
-zchar[ 7 ] packetx `
-`
-, i64  matchKey , metadata // @lengthOf(
-f32a// a // b
-`` ,
-char[] tag`it's` ,
-    }
-    root
-packet
-stringy
-{
-@calculatedFrom(
-    ""a	b""
-) repeat crc `{ , }`	, @calculatedFrom( ""`tick`"" )
-@rightPad ( '0') @tag(	42)match
-    u128 as u8x{[ // @lengthOf(
-65535	, 255
-,255,
-""abc""	, ""\" ++ [233]%N ++ runes_of_ascii """ , ""packet"", // " ++ [27880; 37322]%N ++ runes_of_ascii "
-1 ] :Pad
-    //
-    ,// packet A { u8 x, }
-}, @rightPad(	'\x00'  ) match Foo
-as
-u128{ 65535 : T, } , packetx ,zchar[0123456789
-]	A,int16
-uint8x , float `crlf
-line`, @tag(7
-) @calculatedFrom(
-""""
-) As { repeat
-    uint8x len , char[ 65535
-] options1
-    @lengthOf(
-lengthOf ) `doc`
-, repeat uint8x	{ // " ++ [128512]%N ++ runes_of_ascii " emoji
-f32a `{ , }` , zchar[	255	]
-int
-@calculatedFrom( ""// no comment"" ) , x_y_z @lengthOf( x_y_z )
+    asx a1,
+    // a // b
+    // @lengthOf(
+    @lengthOf(body)
     //x
-    `say ""hi""` ,repeat float // " ++ [27880; 37322]%N ++ runes_of_ascii "
-{ zchar[ 4294967296]T `// not a comment`
-, } , } ,
-i8i8
-{ // trailing space 
-msg_type `line1
-line2` , } ,} , @rightPad
-    /// triple
-    ( ' '
-)  i8i8`say ""hi""` ,} root packet i8i8 // @lengthOf(
-{
-    //
-    @tag( 0123456789
-) @rightPad // a // b
-( ' '
-// c
-// a // b
-)
-    // @lengthOf(
-    @tag( 1 ) calculatedFrom MetaDataX , uint8 tag , repeat
-string_ { u32 BodyLength
-    , //x
-repeat	Packet _x , Header{ falsey
-len
-,
-}
-// " ++ [27880; 37322]%N ++ runes_of_ascii "
-//	t
-, } ,
-@rightPad  (
-    '0'// packet A { u8 x, }
-)  repeat //	t
-char packetx `{ , }` ,
-    @leftPad
-    ( ' ' )
-    // @lengthOf(
-    @lengthOf( x ) // a // b
-char[]
-len
-@calculatedFrom(
-""{,}"" )
-    `tab	here` , @lengthOf(
-Z9_
-    ) match
-// " ++ [128512]%N ++ runes_of_ascii " emoji
-// packet A { u8 x, }
-a1
-as a1
-    {42 : x,
-""a\""b""
-:tag
-[ 42	, 42 ,
-    0 , 4294967296 ]: u8x ,// c
-65535 // " ++ [128512]%N ++ runes_of_ascii " emoji
-:As
-    , // " ++ [128512]%N ++ runes_of_ascii " emoji
-""a\\"" :x } , @tag( 65535	) @leftPad ( ' '
-) @calculatedFrom(
-    ""a	b"" )Z9_ //	t
-{ repeat i8i8 lengthOf , }  , repeat
-    char[
-    3/// triple
-]
-    options1 `" ++ [28040; 24687; 31867; 22411]%N ++ runes_of_ascii "`
-    ,}// c
-packet
-    calculatedFrom { }
-")).
-Eval vm_compute in ("<<<M1124>>>" ++ check (runes_of_ascii "
-MetaData msg_type{ trueish i8i8,
-float32 msg_type ,
-options1 BodyLength `two words`, u128 body `u8 x,` , }// trailing space 
-packet
-    // c
-    Logon {
-    repeat
-i32 metadata `
-`
-, @calculatedFrom(""x y"")
-    // c
-    i64_ , i64 int@lengthOf( pack  )
-    ,
-    char[] charz ,
-    // @lengthOf(
-    match
-_x as
-// a // b
-/// triple
-pack { 3
-: body,[ ""// no comment"" ,""a\""b""
-] : uint8x , 3: lengthOf	,
-    } ,
-matchKey , roots
-{ _x @lengthOf(	Pad	)
-,
-repeat
-    a1	_x , } ,
-    string T, @lengthOf(
-//
-// a // b
-Pad )
-match f32a as u // c
-{// a // b
-[10
-    // a // b
-    ,
-    //	t
-    """ ++ [233]%N ++ runes_of_ascii "t" ++ [233]%N ++ runes_of_ascii """, // a // b
-""`tick`"" , 255 ,
-0123456789 , ""1"" ,//
-""a	b""  ,
-3
-    ]
-    :options1 } ,	} MetaData u128{char[ 10 ] tag ,
-pack
-stringy , char
-pack, } root packet Header //
-{match Foo as Logon{  [ """ ++ [233]%N ++ runes_of_ascii "t" ++ [233]%N ++ runes_of_ascii """ ,
-""CRC32"" ]: falsey [ //x
-""" ++ [233]%N ++ runes_of_ascii "t" ++ [233]%N ++ runes_of_ascii """,
-/// triple
-// a // b
-""""
-    ]
-:
-u128, [ 00
-    , ""a\""b"" , 7 , ""it's"",""" ++ [28040; 24687]%N ++ runes_of_ascii """, 00 ,
-// " ++ [128512]%N ++ runes_of_ascii " emoji
-/// triple
-255 , 00 ] :
-asx , ""// no comment"" :charz ,
-""1"" : Packet ,
-[ ""// no comment"" , 1	] :  zchar,
-} , @lengthOf(u8x// a // b
-)@tag(
-    007 // @lengthOf(
-) @lengthOf( pack) u8 _x`doc` ,
-zchar[ 0123456789
-    // a // b
-    ] Packet@lengthOf( o)
-    ,	match chars	as
-msg_type
-    {
-    ""\n""
-    : lengthOf , 0123456789
-// packet A { u8 x, }
-// trailing space 
-:
-a1 , [ 4294967296  ] : stringy ,[ ""`tick`"" ,""`tick`""
-    // `tick` ""quote"" 'q'
-    , 0  ] // @lengthOf(
-:
-    /// triple
-    falsey , [ // `tick` ""quote"" 'q'
-007 ,
-    // a // b
-    65535
-, 65535
-    , 10
-    , ""abc"" ,
-3
-    ] :
-body ,
-} ,zchar[  10 ]
-    // " ++ [27880; 37322]%N ++ runes_of_ascii "
-    Logon, }	packet Packet { } // " ++ [27880; 37322]%N)).
-Eval vm_compute in ("<<<M972>>>" ++ check (runes_of_ascii "packet u/// triple
-{
-@calculatedFrom( ""1"" ) match o as float{
-""x y""	:
-    u
-    , }
-    ,match packetx as
-    f32a {
-// a // b
-// c
-[ 4294967296 ,3] :
-x , 10
-: i8i8, """ ++ [233]%N ++ runes_of_ascii "t" ++ [233]%N ++ runes_of_ascii """ : _x [
-    // `tick` ""quote"" 'q'
-    ""a	b""
-, """ ++ [28040; 24687]%N ++ runes_of_ascii """
-    //	t
-    ,
-    ""1"",""a\\"" ,42 , 4294967296
-    , ""a	b""] :
-    Header ,//
-65535 : i8i8 , 0123456789 :repeatCount ,
-    }
-    ,
-repeat
-stringy { //	t
-char[	0
-]
-Logon	`{ , }`, Pad `a\`
-, asx
-    BodyLength`line1
-line2` ,
-    repeat string
-    Z9_, } ,
-    f32a metadata `" ++ [28040; 24687; 31867; 22411]%N ++ runes_of_ascii "`
-, @calculatedFrom(
-""a\""b"" )
-    metadata { Z9_ @calculatedFrom( """ ++ [233]%N ++ runes_of_ascii "t" ++ [233]%N ++ runes_of_ascii """ ) ,  repeat zchar[  1 ] //
-options1 `say ""hi""` , i8 options1,
-    roots
-{string packetx ,
-repeat char[//x
-65535 ] x // trailing space 
-,
-    // c
-    }
-, } , int8 matchKey
-    ,
-metadata @lengthOf( roots )
-// packet A { u8 x, }
-//	t
-,  string u// " ++ [27880; 37322]%N ++ runes_of_ascii "
-@lengthOf(
-    As
-)
-    , } packet //x
-x_y_z {
-    // " ++ [128512]%N ++ runes_of_ascii " emoji
-    len o, match
-string_ as
-Foo {
-[
-    255
-    ,
-""" ++ [233]%N ++ runes_of_ascii "t" ++ [233]%N ++ runes_of_ascii """
-    //
-    , 255 , 007 , ""a\""b""
-    // " ++ [27880; 37322]%N ++ runes_of_ascii "
-    , ""abc""  ]
-: a1
-    // @lengthOf(
-    ,""CRC32""
-:matchKey } ,@lengthOf(
-int )	@calculatedFrom(//	t
-""1""// " ++ [27880; 37322]%N ++ runes_of_ascii "
-)
-@calculatedFrom(//
-""it's"") char[ 0 ]
-matchKey @calculatedFrom(
-""`tick`"" )
-    , match a1
-as Z9_
-{ [ ""CRC32"" , 65535 ] :
-    x [ 0123456789 ,  """ ++ [233]%N ++ runes_of_ascii "t" ++ [233]%N ++ runes_of_ascii """]	: packetx ,
-    ""packet"" :
-//	t
-// a // b
-msg_type , 10 : // " ++ [27880; 37322]%N ++ runes_of_ascii "
-o// " ++ [128512]%N ++ runes_of_ascii " emoji
-, }, @lengthOf( repeatCount )
-    f32 As , @tag( 3
-    )
-    string_, } 	 ")).
-Eval vm_compute in ("<<<M4422>>>" ++ check (runes_of_ascii "MetaData falsey {
-    char[] f32a `" ++ [28040; 24687; 31867; 22411]%N ++ runes_of_ascii "`,
-    u8x len `" ++ [233]%N ++ runes_of_ascii "`,
-    char[] uint8x,
-    f32 trueish,
-    char[10] len `two words`,
-    rootA int,
-}
-
-root packet A {
-    Z9_,
-    repeat MetaDataX `it's`,
-    @tag(007)
-    repeat options1 A,
-    repeat x `line1
-    line2`,
-    MetaDataX @lengthOf(options1) `say ""hi""`,
-}
-
-// trailing space 
-// " ++ [27880; 37322]%N ++ runes_of_ascii "
-root packet rootA {
-    @tag(255)
-    char[10] Foo @lengthOf(metadata) ``,
-    @leftPad('\x00')
-    msg_type {
-        //x
-        // a // b
-        float32 Pad,
-        repeat uint32 Logon,
+    msg_type int,
+    tag `line1
+        line2`,
+    repeat Z9_ {
+        u16 packetx @calculatedFrom(""it's""),
     },
-    @leftPad()
-    stringy @calculatedFrom(""" ++ [128512]%N ++ runes_of_ascii """) `" ++ [28040; 24687; 31867; 22411]%N ++ runes_of_ascii "`,
-    @tag(4294967296)
-    @tag(4294967296)
-    @lengthOf(i8i8)
-    BodyLength {
-        zchar[42] u128,
-        crc {
-            char[255] Z9_ @lengthOf(int),
+    @lengthOf(Logon)
+    // " ++ [128512]%N ++ runes_of_ascii " emoji
+    @rightPad()
+    @calculatedFrom(""" ++ [233]%N ++ runes_of_ascii "t" ++ [233]%N ++ runes_of_ascii """)
+    repeat roots u128,
+    @calculatedFrom(""{,}"")
+    chars {
+        match roots as Foo {
+            10 : trueish,
         },
     },
-    @tag(10)
-    zchar[3] stringy @calculatedFrom(""\n""),
-    a1 calculatedFrom,
+    i8i8,
+    @calculatedFrom(""x y"")
+    @calculatedFrom(""a\""b"")
+    repeat Z9_ {
+        f32a msg_type,
+        repeat o {
+            // " ++ [128512]%N ++ runes_of_ascii " emoji
+            // @lengthOf(
+            zchar[0] charz @calculatedFrom(""CRC32""),
+        },
+    },
 }
 
-packet u8x {
-    x_y_z @lengthOf(lengthOf) `crlf
-    line`,
-    match uint8x as repeatCount {
-        [""a\""b"", ""// no comment""] : Header,
-        [""a\\"", 4294967296] : roots,
-        // " ++ [128512]%N ++ runes_of_ascii " emoji
-        // @lengthOf(
-        42 : rootA,
-        [1, """", ""`tick`"", ""a	b""] : tag,
-        ""1"" : u8x,
+root packet BodyLength {
+    calculatedFrom {
+        char[] x @calculatedFrom(""\n""),// @lengthOf(
+        _x @calculatedFrom(""`tick`""),
+        repeat u128,
+        float Packet `" ++ [28040; 24687; 31867; 22411]%N ++ runes_of_ascii "`,
     },
-    f32a `a\`,
-    @lengthOf(u8x)
-    pack asx,
-    uint64 leftPad,
-    repeat char[0] Pad,
-}")).
-Eval vm_compute in ("<<<M3622>>>" ++ check (runes_of_ascii "options {
-    StringPrefixLenType = u16;
-    ArrayPrefixLenType = u8;
-    FixedStringPadFromLeft = true;
+    repeat Foo {
+        uint64 a1,
+    },/// triple
+    repeat char[42] matchKey `it's`,
+    lengthOf {
+        // " ++ [27880; 37322]%N ++ runes_of_ascii "
+        u128 trueish `// not a comment`,
+        match chars as MetaDataX {
+            00 : x_y_z,
+            1 : trueish,
+            [0123456789] : calculatedFrom,
+            [
+                ""CRC32"", ""\" ++ [233]%N ++ runes_of_ascii """, ""// no comment"", ""it's"", ""packet"",
+                007
+            ] : Pad,
+        },
+    },
+    repeat char[] Logon,
+    @leftPad('0')
+    f32 Pad @calculatedFrom(""CRC32""),
+    @lengthOf(BodyLength)
+    options1 @calculatedFrom(""`tick`""),
+    A {
+        // " ++ [27880; 37322]%N ++ runes_of_ascii "
+        //	t
+        uint8 charz `u8 x,`,
+        falsey x `line1
+                line2`,
+        repeat int8 Packet,
+        zchar[1] float,
+    },
+    char[65535] matchKey @calculatedFrom(""x y""),
+    @lengthOf(o)
+    match chars as As {
+        1 : f32a,
+    },
+}
+
+packet int {
+    @calculatedFrom(""// no comment"")
+    @rightPad()
+    @calculatedFrom(""" ++ [233]%N ++ runes_of_ascii "t" ++ [233]%N ++ runes_of_ascii """)
+    roots _x `say ""hi""`,// `tick` ""quote"" 'q'
+}
+
+options {
+    o = ""{,}""
+    Pad = 255;
+}// " ++ [27880; 37322]%N)).
+Eval vm_compute in ("<<<M345>>>" ++ check (runes_of_ascii "// `tick` ""quote"" 'q'
+root	packet /// triple
+As { }packet x_y_z{@rightPad (
+) @tag( 42 )
+    @rightPad (' ' ) repeat f32a charz ,match Header as// a // b
+stringy { [ 1	,	4294967296 ]// packet A { u8 x, }
+: rootA ,
+0123456789 : x_y_z
+    , [
+    65535
+, 255]	:
+/// triple
+// a // b
+metadata ,
+[	7 , """ ++ [233]%N ++ runes_of_ascii "t" ++ [233]%N ++ runes_of_ascii """, ""{,}"" ,""{,}"" ] : T
+// trailing space 
+// " ++ [27880; 37322]%N ++ runes_of_ascii "
+,""packet"" :
+    chars , // trailing space 
+[ 42
+    , //
+00] : Logon,} ,repeat i8i8 {
+tag @calculatedFrom(// " ++ [27880; 37322]%N ++ runes_of_ascii "
+""" ++ [128512]%N ++ runes_of_ascii """ )`{ , }` , }
+,Z9_ @lengthOf(
+    Packet
+    // @lengthOf(
+    ) ,
+    // trailing space 
+    lengthOf
+    ,
+trueish {
+zchar[ 007/// triple
+]
+    packetx, zchar[ 0123456789
+] MetaDataX `// not a comment`
+, rootA @lengthOf(Z9_)
+    `" ++ [233]%N ++ runes_of_ascii "`, }
+,	} root// a // b
+packet u8x { float64 len@calculatedFrom( ""packet"" )
+//
+// " ++ [27880; 37322]%N ++ runes_of_ascii "
+, u8 calculatedFrom , @calculatedFrom( ""a\""b""
+) @calculatedFrom( ""\n"") // trailing space 
+@lengthOf(
+    Foo ) Logon @lengthOf(	i8i8) , // trailing space 
+@calculatedFrom(
+""a\\"") falsey@calculatedFrom(
+""" ++ [233]%N ++ runes_of_ascii "t" ++ [233]%N ++ runes_of_ascii """)`line1
+line2` ,@leftPad('\x00' )
+    // c
+    match
+i64_	as
+    // c
+    i64_{ [
+    0123456789 ] :  a1
+,[ ""1"" ,
+3 , //
+3 , 7 , 0
+] :string_ ,
+    """"// `tick` ""quote"" 'q'
+:
+    i64_ , }, @lengthOf( As )
+    // packet A { u8 x, }
+    T{zchar[ 0] roots
+@lengthOf(
+options1 )
+    , /// triple
+u16 pack
+    ,//
+} ,/// triple
+string// `tick` ""quote"" 'q'
+x	`crlf
+line`
+, }")).
+Eval vm_compute in ("<<<M127>>>" ++ check (runes_of_ascii "root packet As// `tick` ""quote"" 'q'
+{
+    @calculatedFrom( ""{,}""	)zchar[ 4294967296
+    // packet A { u8 x, }
+    ]As ,@tag( 7 ) repeat
+    pack
+    {body
+    {// trailing space 
+zchar[
+65535 //x
+] MetaDataX `doc`
+, string_ @lengthOf( // " ++ [27880; 37322]%N ++ runes_of_ascii "
+Logon  ) , i64 MetaDataX@calculatedFrom( """" )// " ++ [27880; 37322]%N ++ runes_of_ascii "
+`a\`, //x
+repeat char[] Foo,	} ,
+/// triple
+// packet A { u8 x, }
+},@lengthOf( MetaDataX
+    ) @calculatedFrom(
+""\n""	) @lengthOf( float )
+char[ 0123456789 ] a1 @calculatedFrom( ""a\""b"") ,
+repeat msg_type  { // `tick` ""quote"" 'q'
+repeat f64 Packet`a\` , int64 asx@calculatedFrom( ""{,}"" )`" ++ [233]%N ++ runes_of_ascii "`  ,zchar[3  ]
+    metadata	,	zchar[
+00 ] x_y_z
+    @calculatedFrom( ""CRC32""
+) , }, } packet calculatedFrom // a // b
+{ match calculatedFrom as BodyLength{ 65535
+: Foo ,
+    }, match
+    int as falsey {  42 : body, [ ""abc""
+// " ++ [128512]%N ++ runes_of_ascii " emoji
+// " ++ [27880; 37322]%N ++ runes_of_ascii "
+,
+    ""\n"" , ""abc""
+,""" ++ [28040; 24687]%N ++ runes_of_ascii """	]:stringy
+    // `tick` ""quote"" 'q'
+    , [0123456789
+, ""{,}""
+,
+42
+    , 1
+]// " ++ [27880; 37322]%N ++ runes_of_ascii "
+: trueish , ""`tick`"" :metadata ,  [ ""1"" , ""a	b"" , 42
+]
+: zchar}
+    ,repeat zchar[  4294967296 ]stringy `line1
+line2`
+, } options // @lengthOf(
+{stringy= // packet A { u8 x, }
+' '/// triple
+; }")).
+Eval vm_compute in ("<<<M1556>>>" ++ check (runes_of_ascii "options {
+    StringPrefixLenType = u64;
+    ArrayPrefixLenType = u16;
     FixedStringPadChar = ' ';
 }
-packet Quote {
-    int64 OrderId,
-    char[] Ref,
-    @leftPad('0') char[5] price,
+packet Logon {
+    i32 msgKind,
+    repeat InOrderid65 {
+        u8 pad0,
+    },
+    i8 tag7,
+    @leftPad(' ') char[12] x,
 }
-packet Heartbeat {
-    zchar[3] venue,
-    string Flags,
+packet Leg {
+    char[] f1,
+    repeat char[5] Px,
+    InQty34 {
+        repeat char[6] Qty,
+        char[7] seqNo,
+        string count,
+    },
+    Logon,
 }
-packet Trade {
-    repeat InTag787 {
-        i32 venue,
-        char[5] sym,
-        repeat InPx98 {
-            char[11] Qty,
-            Heartbeat,
-            char[] price,
-            u32 x,
-            float64 count,
-            repeat Quote,
+packet Party {
+    @leftPad('0') char[10] OrderId,
+    string Tail,
+}
+packet Fill {
+    zchar[5] venue,
+    zchar[3] clOrdID,
+    InRef95 {
+        InLastpx25 {
+            u8 pad0,
         },
-        zchar[7] Note,
-        repeat char[1] Tail,
+        float64 OrderId,
+        i32 f1,
+        float32 x,
+        char[] seqNo,
     },
-    repeat char[2] seqNo,
-    InTail55 {
-        repeat Quote,
-        string msgKind,
-        InPx18 {
-            char[] count,
-            repeat Quote,
-            uint16 Qty,
-        },
-        char[4] seqNo,
-        repeat Heartbeat,
-        repeat string sym,
-    },
-    repeat Quote,
-    Heartbeat,
-    @leftPad(' ') char[10] OrderId,
+    repeat string seqNo,
 }
-root packet Fill {
-    Heartbeat,
-    uint32 count,
-    u8 OrderId,
-    match OrderId as Body {
-        96 : Quote,
-        195 : Trade,
-        187 : Heartbeat,
+root packet Heartbeat {
+    repeat Leg,
+    u32 seqNo,
+    u16 tag7,
+    u32 Flags @lengthOf(Body),
+    match tag7 as Body {
+        [195, 75] : Party,
+        171 : Fill,
+        78 : Logon,
+        142 : Leg,
     },
-    u32 venue @calculatedFrom(""CR\
+    u32 Note @calculatedFrom(""CR\
 C32""),
 }
 ")).
-Eval vm_compute in ("<<<M3621>>>" ++ check (runes_of_ascii "
-
-  options{
-
-    StringPrefixLenType
-
-=
-u16	;	ArrayPrefixLenType  =u8
-
-    ;
-
-FixedStringPadFromLeft=
-    true ;
-    FixedStringPadChar
-=' '	; }
-packet Quote
-    {int64 
-OrderId
-    ,
-char[] Ref,@leftPad
-(
-'0'
-)char[
-    5 
-]	price
-	, 
-}packet
-    Heartbeat
-
-    {	zchar[  3 
-] 
-venue,
-
-    string Flags	, 
-}packet Trade
-
-{
-
-    repeat  InTag787
-
-{
-	i32 venue
-    , char[
-
-    5 ] 
-sym
-
-,
-repeat
-    InPx98
-
-{char[ 11  ]  Qty
-    , Heartbeat 
-, char[] price
-    ,  u32
-
-    x ,
-
-float64	count
-,repeat 
-Quote
-
-,
-}
-    , zchar[  7 ]  Note
-, repeat char[
-1
-
-    ]
-Tail ,  }
-, repeat
-	char[
-
-    2 ]	seqNo,	InTail55 
-{repeat	Quote ,string
-msgKind ,
-InPx18{
-
-    char[]count ,  repeat	Quote
-
-    , uint16 Qty
-
-,
-	},
-char[
-4 ]
-
-    seqNo	, 
-repeat 
-Heartbeat
-
-,repeat	string
-
-    sym
-,
-} ,repeat
-Quote,
-Heartbeat , @leftPad(' '
-
-)
-    char[
-
-    10 
-] OrderId,
-} 
-root
-packet
-    Fill
-    {	Heartbeat,  uint32 count
-
-,
-	u8
-
-OrderId
-
-,
-match  OrderId
-as 
-Body
-	{
-
-96 
-: Quote
-, 195	: 
-Trade , 187 :Heartbeat,
-} 
-,  u32
-	venue 
-@calculatedFrom(
-""CRC32""
-	)
-	,	}
-")).
-Eval vm_compute in ("<<<M4037>>>" ++ check (runes_of_ascii "options {
-    LittleEndian = true;
-    StringPrefixLenType = u16;
-    ArrayPrefixLenType = u8;
-    FixedStringPadChar = '0';
-}
-
-packet Logout {
-    repeat i16 f1,
-    string Ref,
-    @rightPad('\x00')
-    char[9] Tail,
-    repeat char[6] Flags,
-    repeat char[3] Acct,
-}
-
-packet Party {
-    char[2] f1,
-    u8 Side2,
-    @leftPad(' ')
-    char[1] venue,
-}
-
-packet Order {
-    repeat i64 Ref,
-    InPx62 {
-        i32 OrderId,
-    },
-    InNote53 {
-        InClordid80 {
-            char[] Acct,
-            u32 Px,
-            repeat Party,
-        },
-        InPrice12 {
-            u8 pad0,
-        },
-        repeat Logout,
-        InFlags23 {
-            repeat string seqNo,
-            string sym,
-            int8 Flags,
-            zchar[5] lastPx,
-            zchar[6] Px,
-        },
-        char[10] Acct,
-        InPx18 {
-            zchar[2] count,
-            Party,
-        },
-    },
-    char[5] Side2,
-    char[1] Acct,
-}
-
-root packet Ack {
-    u32 Tail,
-    repeat char[4] msgKind,
-    repeat Logout,
-}")).
-Eval vm_compute in ("<<<M1317>>>" ++ check (runes_of_ascii "MetaData  u{ metadata x_y_z	, i8i8
-    len`it's`
-    , zchar[ // " ++ [27880; 37322]%N ++ runes_of_ascii "
-42	]
-options1 `{ , }` ,
-} packet u {
-@calculatedFrom(""abc""// a // b
-)
-// c
-// " ++ [27880; 37322]%N ++ runes_of_ascii "
-char[ 0123456789 ] string_ @lengthOf(
-Logon) `a\`	, string string_
-@lengthOf( // packet A { u8 x, }
-float )	, char[]// c
-crc
-`line1
-line2` , @lengthOf(
-/// triple
-// `tick` ""quote"" 'q'
-metadata
-    )  u128 {
-    char[]  T ,}, f64  As
-@calculatedFrom(// a // b
-""// no comment""
-)// " ++ [27880; 37322]%N ++ runes_of_ascii "
-,  repeat Z9_
-    chars`u8 x,` ,  @calculatedFrom(
-""packet"" )repeat
-    // @lengthOf(
-    a1  tag , } packet A
-    {	@tag(7
-    )@rightPad
-(
-) @tag( 0123456789 ) repeat
-    crc { repeatCount As
-// @lengthOf(
-//	t
-,}
-, match pack
-    as u {
-""packet"" :Pad  , ""1"":u8x 007
-    : Packet [ ""packet"", """ ++ [28040; 24687]%N ++ runes_of_ascii """ ] // " ++ [27880; 37322]%N ++ runes_of_ascii "
-: BodyLength
-""1"" :asx ,
-} , match i64_
-as Header{ 4294967296: _x	007 :packetx
-, [007 ]
-:
-A
-    , //	t
-} ,uint8 BodyLength ,@lengthOf(
-// `tick` ""quote"" 'q'
-// packet A { u8 x, }
-i64_ //	t
-)
-    u8
-falsey //	t
-, }
-")).
-Eval vm_compute in ("<<<M208>>>" ++ check (runes_of_ascii "packet zchar{
-    uint8x { MetaDataX , match stringy as calculatedFrom { """" : options1,""// no comment""
-: //x
-u
-""\" ++ [233]%N ++ runes_of_ascii """
-:  body
-, [
-""abc""
-    , ""it's"" , // c
-007 ] : packetx
-//	t
-// @lengthOf(
-,65535:
-roots
-, } ,  zchar[	10 ]
-lengthOf`two words`  ,	} // trailing space 
-,
-//
-// packet A { u8 x, }
-} root
-packet Header{repeat f32a o `two words`,
-    @lengthOf(
-    f32a ) char[	42
-]
-    uint8x ,	@tag( 42
-)
-    float@lengthOf(
-MetaDataX  ) , string T	, match _x as leftPad
-    { 0123456789 :
-    stringy, } ,  @leftPad // @lengthOf(
-( )repeat uint8x// c
-{
-string_ { char[ 255] a1 @calculatedFrom( ""abc""
-), metadata @lengthOf(	asx ),
-    } , repeat falsey /// triple
-,
-    Logon { As ,
-repeat char[]// trailing space 
-u
-    , } , },
-    @leftPad
-    (	' '
-    )
-char[ 10
-] charz
-@lengthOf(  float ), @calculatedFrom(
-    """ ++ [233]%N ++ runes_of_ascii "t" ++ [233]%N ++ runes_of_ascii """
-) i64 trueish
-    `two words`
-, } options{ options1	=7
-; u
-    // " ++ [27880; 37322]%N ++ runes_of_ascii "
-    = """" ; } 	 ")).
-Eval vm_compute in ("<<<M3908>>>" ++ check (runes_of_ascii "
-
-  options  { metadata
-    = ""a\""b""
-	;int
-	= true; 
-chars
-    = '\x00';
-	string_ = '\x00'
-
-; } packet
-
-    x {	match As	as
-	tag  {	1 :zchar
-
-,	""a	b""  // packet A { u8 x, }
-  :
-
-    len,
-}
-,  Pad
-i64_,  // " ++ [27880; 37322]%N ++ runes_of_ascii "
-@tag(
-3
-) 
-leftPad
-{ 	 // trailing space 
-  body ,}
-    ,char[]
-	i8i8  `{ , }`  ,
-charz	{  repeat
-
-u16
-	zchar
-
-    `two words`
-,
-
-    }
-	//
-  //	t
-    , int64
-	Z9_  // " ++ [27880; 37322]%N ++ runes_of_ascii "
-	@calculatedFrom(
-""a\\""
-),@rightPad (
-
-'\x00'  )
-	metadata  @lengthOf(	i64_ 	 // `tick` ""quote"" 'q'
-    ) , @lengthOf(// @lengthOf(
-      int
-)
-u32  u128 
-,	// packet A { u8 x, }
-	  @tag(10
-
-    )
-
-    // " ++ [27880; 37322]%N ++ runes_of_ascii "
-	// " ++ [128512]%N ++ runes_of_ascii " emoji
-		@rightPad( 
-'\x00')	//
-  @tag(	007
-	)float
-    {	int32 Pad	`" ++ [233]%N ++ runes_of_ascii "`
-	, i16 options1``
-    ,
-	repeatCount  // @lengthOf(
-	,
-    chars	@lengthOf(
-
-pack
-	),
-	}
-	,repeat
-    int
-    {  zchar[ 10 ]	u
-`two words`
-    , i64
-Logon
-    ,
-    }  ,}
-")).
-Eval vm_compute in ("<<<M3859>>>" ++ check (runes_of_ascii "// c
-packet i8i8 {
-}
-
-packet string_ {
-    @rightPad('\x00')
-    int Packet,// a // b
-    @tag(255)
-    matchKey,
-    chars @calculatedFrom(""packet"") `
-        `,
-    _x @lengthOf(u),
-    @tag(255)
-    asx Foo,
-    string roots,
-    repeat falsey {
-        matchKey {
-            match Pad as i8i8 {
-                [00, 7] : u,
-                1 : BodyLength,
-                // a // b
-                ""// no comment"" : metadata,
-                """" : BodyLength,
-            },
-        },
-        A,
-        repeat char falsey,
-    },// packet A { u8 x, }
-    _x u `it's`,
-    @leftPad('\x00')
-    @calculatedFrom(""\n"")
-    match x_y_z as metadata {
-        ""CRC32"" : packetx,
-        ""packet"" : metadata,
-        1 : string_,
-        [0, 10] : falsey,
-    },
-    char[] chars @lengthOf(zchar) `say ""hi""`,
-}")).
-Eval vm_compute in ("<<<M587>>>" ++ check (runes_of_ascii "
-packet _x{ metadata
-    @lengthOf( i64_ ) , match trueish as
-int {
-    ["""" ,  255
-    ] :
-//
-// packet A { u8 x, }
-T , 65535:zchar ,// c
-} , @calculatedFrom(
-    ""a\""b"")	match leftPad as// a // b
-len{ ""x y""
-: Z9_ ,[ 0 ,
-007 , ""x y"" ] :
-    falsey
-    //	t
-    , } , }
-    root packet
-As{
-string int , @tag(
-    255 )@lengthOf( roots )
-@calculatedFrom( """ ++ [128512]%N ++ runes_of_ascii """
-    // @lengthOf(
-    ) repeat crc
-{ repeat char trueish , // " ++ [128512]%N ++ runes_of_ascii " emoji
-}
-,
-    zchar[4294967296 ] options1@calculatedFrom( ""CRC32"" )
-,match packetx as
-lengthOf
-{ ""a\""b"" :
-options1 ,
-0123456789  : Foo, ""a\\"" : trueish
-,3  : string_,""\n"" : zchar
-, [	65535 ] : u128
-    } ,  @tag( 42) @leftPad
-    //x
-    (
-// `tick` ""quote"" 'q'
-// `tick` ""quote"" 'q'
-'\x00' ) i16
-crc , }packet lengthOf // trailing space 
-{ }")).
-Eval vm_compute in ("<<<M264>>>" ++ check (runes_of_ascii "
-root packet u128 { @calculatedFrom( ""// no comment"" ) @tag(	10//	t
-) @calculatedFrom( ""packet"" ) BodyLength ``
-    , char BodyLength `two words`	, repeat uint32 f32a // trailing space 
-, crc {	repeat
-repeatCount Packet , MetaDataX@lengthOf(
-    chars
-),
-options1 _x ,
-repeat float64 T//x
-,} ,@tag( 3 )
-    @leftPad
-( '\x00') @rightPad
-(
-// @lengthOf(
-/// triple
-)
-    match string_ as MetaDataX { ""packet"" : float ,[
-    ""abc"" // @lengthOf(
-, """"
-    // packet A { u8 x, }
-    ,	3
-,
-    //x
-    65535 ,
-    ""a	b""
-,//	t
-42
-    ,
-    1 ,
-    ""packet"" ]:
-i64_
-// `tick` ""quote"" 'q'
-/// triple
-,
-// " ++ [27880; 37322]%N ++ runes_of_ascii "
-// trailing space 
-7 :lengthOf 0:
-len
-// trailing space 
-// packet A { u8 x, }
-,
-10 :  len , [ //	t
-0
-] : A
-    //	t
-    , }, }")).
-Eval vm_compute in ("<<<M933>>>" ++ check (runes_of_ascii "packet //x
-Foo
-    {char _x ,
-@calculatedFrom(
-    // c
-    ""`tick`"")uint8x , @calculatedFrom(""it's"" ) repeat metadata {int64 Pad  , // " ++ [128512]%N ++ runes_of_ascii " emoji
-float , pack
-    // c
-    matchKey`" ++ [28040; 24687; 31867; 22411]%N ++ runes_of_ascii "`
-, }, string lengthOf
-//
-/// triple
-,
-zchar[ 7 ]	chars ,i16 asx @calculatedFrom(
-""{,}"" )`u8 x,` , @calculatedFrom(""a\\"" ) u32 o `tab	here`
-//
-// a // b
-,match u8x as
-    chars {[ ""// no comment"",""`tick`"", ""x y""
-    ,0
-,""\" ++ [233]%N ++ runes_of_ascii """, //	t
-00 ,""" ++ [233]%N ++ runes_of_ascii "t" ++ [233]%N ++ runes_of_ascii """ ]	:
-lengthOf ,
-},  } options
-{ crc// `tick` ""quote"" 'q'
-=u64 }packet metadata { @rightPad () float len ,} options {  f32a =false
-//	t
-//
-;
-    calculatedFrom =  10;//	t
-pack =
-    char[  42
-    ] trueish = ' '
-}
-    root  packet leftPad	{ i32
-x
-    `{ , }` ,
-}
-")).
-Eval vm_compute in ("<<<M4180>>>" ++ check (runes_of_ascii "packet  metadata {  //	t
-	leftPad{u64 
-stringy , 
-},} packet
-matchKey
-	{
-	repeat
-
-u64
-	x_y_z,
-
-}  MetaData
-
-    f32a
-
-    {	}
-	root packet 
-As	{  @lengthOf( Logon
-)	float64 A
-
-, @leftPad ( 	 // " ++ [27880; 37322]%N ++ runes_of_ascii "
-'0'
-)  u32
-
-i64_ /// triple
-`// not a comment`  /// triple
-    ,repeat	i8
-
-    chars	,
-	@lengthOf( x_y_z	)Foo
-x
-    ,	stringy,
-chars @calculatedFrom( ""CRC32"" 
-), @tag(
-    0	) 
-int64 pack `
-`	, @rightPad
-() @calculatedFrom(
-	""abc""
-	)@tag(	// packet A { u8 x, }
-0  )
-char[ 0
-
-] msg_type 	 // a // b
-      , 	 // " ++ [27880; 37322]%N ++ runes_of_ascii "
-    tag {
-	char[ 
-007 ]zchar
-	@lengthOf(  chars ) ,
-As @lengthOf(charz  )
-`doc`
-
-,  body
-
-`u8 x,`  ,
-	}
-,Foo  `two words`
-    ,	} ")).
-Eval vm_compute in ("<<<M106>>>" ++ check (runes_of_ascii "packet  matchKey
-{
-    } options{ int = ""a\\""
-; lengthOf //	t
-= ""it's"" } MetaData lengthOf { Pad  tag
-    , } root packet
-    x {int @lengthOf(	pack )
-`a\` //
-, string matchKey
-@lengthOf( chars
-    )  `" ++ [233]%N ++ runes_of_ascii "` , repeat repeatCount
-//x
-//
-{
-    // packet A { u8 x, }
-    match x_y_z as A
-    {""1"": o	,
-// packet A { u8 x, }
-// `tick` ""quote"" 'q'
-7 :uint8x
-// `tick` ""quote"" 'q'
-//	t
-, [
-// `tick` ""quote"" 'q'
-// " ++ [128512]%N ++ runes_of_ascii " emoji
-65535 , """"
-] ://
-Header """ ++ [233]%N ++ runes_of_ascii "t" ++ [233]%N ++ runes_of_ascii """ :  u8x
-    """ ++ [28040; 24687]%N ++ runes_of_ascii """ : charz 65535 :
-stringy }// " ++ [128512]%N ++ runes_of_ascii " emoji
-,	zchar[007]	uint8x ,f32 repeatCount @lengthOf( // c
-float) `two words` , f64 A  `u8 x,`	,
-}, }
-    packet Header{ }
-")).
-Eval vm_compute in ("<<<M1341>>>" ++ check (runes_of_ascii "// packet A { u8 x, }
-packet zchar { uint32 // packet A { u8 x, }
-matchKey , i32 leftPad @calculatedFrom(
-    //	t
-    ""1"" ) `crlf
-line` ,
-_x{  f32a @calculatedFrom(""`tick`""// " ++ [128512]%N ++ runes_of_ascii " emoji
-) ,// packet A { u8 x, }
-char metadata `u8 x,` ,
-    // c
-    char[]
-a1 @lengthOf(float )  `a\`
-, } ,
-@lengthOf(
-A	)/// triple
-zchar[ //
-0123456789
-]Header @lengthOf( o) `" ++ [28040; 24687; 31867; 22411]%N ++ runes_of_ascii "`// c
-,	@tag(00) x `it's` ,
-i8 msg_type @lengthOf(
-len) `
-` , @tag(
-    00
-    ) repeat matchKey// a // b
-{
-    string// " ++ [128512]%N ++ runes_of_ascii " emoji
-u `" ++ [28040; 24687; 31867; 22411]%N ++ runes_of_ascii "` ,u8 u @calculatedFrom( ""a\""b"" ) ,
-i8 len, packetx, }	,
-    } options
-    { Foo = 0
-;
-    }
-")).
-Eval vm_compute in ("<<<M3705>>>" ++ check (runes_of_ascii "packet MetaDataX {
-    matchKey,
-}
-
-packet x {
-    i32 msg_type,
-    leftPad {
-        string Logon @lengthOf(body),
-    },/// triple
-    repeat options1 {
-        i8i8 msg_type `a\`,
-    },
-    @tag(0)
-    @leftPad()
-    // `tick` ""quote"" 'q'
-    int64 f32a @lengthOf(asx) `tab	here`,
-    char[] pack `" ++ [28040; 24687; 31867; 22411]%N ++ runes_of_ascii "`,//x
-    @lengthOf(stringy)
-    repeat leftPad,
-    @leftPad(' ')
-    @leftPad()
-    match Logon as roots {
-        //x
-        ""`tick`"" : string_,
-    },
-    @tag(0123456789)
-    @calculatedFrom(""1"")
-    @leftPad()
-    u32 x_y_z @calculatedFrom(""\" ++ [233]%N ++ runes_of_ascii """),
-}")).
-Eval vm_compute in ("<<<M313>>>" ++ check (runes_of_ascii "root
-packet i8i8
-{ BodyLength `" ++ [28040; 24687; 31867; 22411]%N ++ runes_of_ascii "`, Header , int16 len @lengthOf( msg_type ) `
-` ,@leftPad/// triple
-(' '/// triple
-) @rightPad// " ++ [27880; 37322]%N ++ runes_of_ascii "
-( // a // b
-) // trailing space 
-@calculatedFrom(
-""x y"" ) repeatCount // @lengthOf(
-@calculatedFrom( /// triple
-""packet"")
-    `crlf
-line` , @lengthOf(falsey
-)  roots @lengthOf( metadata
-    )`line1
-line2` ,
-    i8 i64_
-, @tag( 4294967296)@tag( 3 ) repeat	zchar[
-1 ] lengthOf, @lengthOf(	Logon
-// `tick` ""quote"" 'q'
-// `tick` ""quote"" 'q'
-)repeat
-asx{stringy float`line1
-line2` , Pad ,
-}
-    , }
-")).
-Eval vm_compute in ("<<<M3666>>>" ++ check (runes_of_ascii "// top
-packet // c0
-Sub // c1a
+Eval vm_compute in ("<<<M2102>>>" ++ check (runes_of_ascii "  // top
+  	packet 
+    // c0
+  	MDSnapshotZZ	// c1a
   // c1b
-{ u8 // c3a
+	{// c2
+
+u8 // c3a
   // c3b
-a
-    // c4
-, // c5a
+a 
+        // c4
+  ,// c5
+}
+	packet 	 // c7
+
+	OrderACK
+        // c8
+{
+// c9
+    u16	// c10
+  b  // c11
+    ,}
+
+    // c13
+  packet	// c14
+  HTTPServerInfo// c15a
+	// c15b
+{	// c16a
+  // c16b
+    string	// c17a
+	// c17b
+      s// c18
+    , 
+} 	 // c20
+	root packet 
+    // c22
+
+FIXMsg
+	// c23
+    {// c24a
+	// c24b
+
+u8  // c25a
+		// c25b
+  	KType 
+	// c26
+,// c27
+
+MDSnapshotZZ  // c28
+		,
+
+repeat 
+      // c30
+	  OrderACK	// c31a
+// c31b
+    ,  // c32a
+// c32b
+  match	KType as
+	Body
+// c36
+	  {// c37a
+	// c37b
+	1 // c38
+    : // c39
+  HTTPServerInfo
+    , 2
+: 	 // c43a
+  // c43b
+  OrderACK 
+	    // c44
+  ,  // c45
+}  // c46
+    , 
+
+    // c47
+    } // c48")).
+Eval vm_compute in ("<<<M1577>>>" ++ check (runes_of_ascii "// top
+options
+    // c0
+{ // c1
+LittleEndian // c2a
+  // c2b
+= // c3a
+  // c3b
+true // c4
+; // c5a
   // c5b
-@calculatedFrom( // c6
-""CRC16"" // c7a
+}
+    // c6
+packet // c7a
   // c7b
-)
+Logon
     // c8
-u16 SubSum // c10
-, } // c12
-root packet Frame { // c16
-u16 // c17
-MsgType // c18
-, u16 // c20a
-  // c20b
-BodyLen // c21
-@lengthOf( Body ) ,
-    // c25
-Sub // c26
-Body , string // c29a
-  // c29b
-note
-    // c30
-,
-    // c31
-@calculatedFrom( // c32a
-  // c32b
-""CRC16"" // c33
-) // c34
-u16 Checksum // c36a
-  // c36b
-, u8
-    // c38
-tail // c39
-, // c40
-}
-    // c41
-")).
-Eval vm_compute in ("<<<M722>>>" ++ check (runes_of_ascii "
-options{
-} MetaData
-    trueish{  }
-MetaData
-options1
-    {
-    // @lengthOf(
-    Z9_ Logon `doc` ,
-    }
-packet i64_ /// triple
-{
-    falsey
-// " ++ [27880; 37322]%N ++ runes_of_ascii "
-/// triple
-rootA
-    ,	@calculatedFrom( ""// no comment"")
-string x_y_z
-,	rootA`{ , }` ,	u `tab	here` // " ++ [128512]%N ++ runes_of_ascii " emoji
-, i64_ Packet, _x
-asx	,@tag( 255 )uint64 trueish , @tag(
-    4294967296 ) @rightPad ( ' '  ) @calculatedFrom( """ ++ [28040; 24687]%N ++ runes_of_ascii """) i64 //
-MetaDataX, @leftPad (' ' // packet A { u8 x, }
-) Pad `a\` , } packet
-asx
-    {// packet A { u8 x, }
-}")).
-Eval vm_compute in ("<<<M337>>>" ++ check (runes_of_ascii "options { }packet BodyLength {i8i8 @lengthOf(trueish ) , repeat body ,// " ++ [27880; 37322]%N ++ runes_of_ascii "
-@calculatedFrom( ""1"" )repeat int64 i64_ ,@tag(0 )
-    MetaDataX msg_type `" ++ [28040; 24687; 31867; 22411]%N ++ runes_of_ascii "`  , Pad { Header @calculatedFrom( """"), }, @tag(  42
-    ) u8 asx `u8 x,` , @tag( 3
-) repeat string_ {
-metadata
-{// @lengthOf(
-char[ 0123456789  ] crc, Packet
-    `" ++ [28040; 24687; 31867; 22411]%N ++ runes_of_ascii "` , //x
-options1
-    // " ++ [128512]%N ++ runes_of_ascii " emoji
-    `tab	here` // packet A { u8 x, }
-,
-}, repeat Packet , } , }
-    //x
-    options { x
-    =  char[ 10	] ; }")).
-Eval vm_compute in ("<<<M520>>>" ++ check (runes_of_ascii "
-packet o {repeat	MetaDataX ,uint64 f32a /// triple
-`" ++ [233]%N ++ runes_of_ascii "`
-,f32 packetx `doc`	, leftPad { repeat len x ,
-    zchar[ 0123456789
-    // packet A { u8 x, }
-    ] tag @lengthOf(MetaDataX )
-    , chars{ zchar[
-// " ++ [27880; 37322]%N ++ runes_of_ascii "
-// `tick` ""quote"" 'q'
-65535]
-u8x `" ++ [28040; 24687; 31867; 22411]%N ++ runes_of_ascii "`, u16 BodyLength
-@calculatedFrom( ""`tick`""
-) `line1
-line2`
-, char[]
-stringy , repeat i64_ charz `crlf
-line` , // trailing space 
-}
-    // packet A { u8 x, }
-    ,	f32
-msg_type , } ,x`` ,
-    }
-")).
-Eval vm_compute in ("<<<M1253>>>" ++ check (runes_of_ascii "root packet metadata{ @calculatedFrom( ""it's"")match
-    Foo as a1{ ""{,}"" :
-    len,
-0123456789 :
-pack ,
-    4294967296
-:len ,
-0123456789 :matchKey
-, [ ""it's"" ]	:o//	t
-}, //
-@calculatedFrom(""""
-//	t
-// " ++ [128512]%N ++ runes_of_ascii " emoji
-) body {	repeat// trailing space 
-float64  zchar `it's` , repeat float zchar// " ++ [27880; 37322]%N ++ runes_of_ascii "
-`// not a comment` , } , } MetaData _x {
-    crc A // a // b
-, char[]repeatCount `two words`,
-uint8x u128 , o rootA `two words`
-    , }")).
-Eval vm_compute in ("<<<M353>>>" ++ check (runes_of_ascii "options { len=
-    // c
-    ""abc""
-; lengthOf = // trailing space 
-true ;} packet
-float {
-    @tag( 65535
-// `tick` ""quote"" 'q'
-// trailing space 
-) @rightPad
-(' ' )int32
-zchar ,repeat int64 trueish
-,
-@tag(10// packet A { u8 x, }
-)
-T repeatCount ,@leftPad (' ' )float32 MetaDataX
-    `it's`
-    ,
-@rightPad (	' ' ) repeat zchar[ 0123456789 ] A
-    , repeat
-i8 f32a , u8 body
-@calculatedFrom( ""it's""
-)
-,
-    }
-")).
-Eval vm_compute in ("<<<M452>>>" ++ check (runes_of_ascii "root packet
-    MetaDataX {} options {  int// " ++ [128512]%N ++ runes_of_ascii " emoji
-=	false
-    //	t
-    } packet
-    falsey {
-    string tag  `say ""hi""` , leftPad // trailing space 
-stringy
-, @calculatedFrom( ""a	b"" ) As
-@calculatedFrom(""packet""	)
-// `tick` ""quote"" 'q'
-// c
-`line1
-line2`
-,
-A@lengthOf(
-// " ++ [27880; 37322]%N ++ runes_of_ascii "
-//
-body) , @calculatedFrom( """ ++ [28040; 24687]%N ++ runes_of_ascii """ ) calculatedFrom ,
-calculatedFrom @lengthOf( calculatedFrom
-)
-`tab	here`,
-}
-")).
-Eval vm_compute in ("<<<M484>>>" ++ check (runes_of_ascii "packet packetx { // packet A { u8 x, }
-@rightPad
-(' ') match x_y_z as options1 {[42
-    ] : f32a , ""`tick`"" :
-    trueish , [ 65535 ,""" ++ [233]%N ++ runes_of_ascii "t" ++ [233]%N ++ runes_of_ascii """
-] :crc, """ ++ [128512]%N ++ runes_of_ascii """ :
-lengthOf ""a	b""  :  Header , 255 : x_y_z
-// @lengthOf(
-// @lengthOf(
-,
-    }
-    ,	} packet zchar
-    // trailing space 
-    { Header
-    // " ++ [128512]%N ++ runes_of_ascii " emoji
-    @calculatedFrom(
-    ""CRC32"") , @leftPad( )repeatCount charz	, }
-//
-")).
-Eval vm_compute in ("<<<M4619>>>" ++ check (runes_of_ascii "  packet
-	metadata// `tick` ""quote"" 'q'
-  {
-
-    Z9_
-
-@lengthOf(
-
-    // `tick` ""quote"" 'q'
-  	// @lengthOf(
-
-	i64_
-
-    ),
-}  packet pack
-// " ++ [27880; 37322]%N ++ runes_of_ascii "
-  // " ++ [128512]%N ++ runes_of_ascii " emoji
-
-{
-	options1 @lengthOf(  asx ) , @leftPad
-
-( ' '
-)	@calculatedFrom( ""abc""
-)
-	    // `tick` ""quote"" 'q'
-	  // trailing space 
-      falsey  ,  // trailing space 
-  char[
-3
-]rootA
-,
-
-    } ")).
-Eval vm_compute in ("<<<M121>>>" ++ check (runes_of_ascii "root
-    packet stringy{ // trailing space 
-@calculatedFrom(
-""" ++ [28040; 24687]%N ++ runes_of_ascii """ ) repeat
-Foo {float64	i64_
-    @lengthOf(Z9_ ),	}
-    ,	repeat // `tick` ""quote"" 'q'
-lengthOf {
-falsey
-    { uint16 len//x
-,	} , Packet uint8x `a\`,} , @calculatedFrom(""" ++ [128512]%N ++ runes_of_ascii """)  string MetaDataX	`" ++ [233]%N ++ runes_of_ascii "`  ,} packet
-chars { @leftPad ( '0'
-    )i64 trueish
-@lengthOf( Z9_  )
-    ,
-}
-")).
-Eval vm_compute in ("<<<M3790>>>" ++ check (runes_of_ascii "packet crc {
-    match string_ as matchKey {
-        7 : matchKey,
-        007 : x,
-        65535 : BodyLength,
-        [00, 3] : u128,
-        [255, 0] : leftPad,
-        ""it's"" : u128,
-    },
-    @calculatedFrom("""")
-    match MetaDataX as int {
-        [3] : As,
-    },
-}
-
-packet falsey {
-}//
-
-options {
-    metadata = 255;
-}")).
-Eval vm_compute in ("<<<M1896>>>" ++ check (runes_of_ascii "MetaData
-    u { }  options {
-// c
-// @lengthOf(
-float = int8 int8 ;rootA =false ; As =	int16 // `tick` ""quote"" 'q'
-repeatCount
-    // trailing space 
-    =
-    int16
-; u8x =
-    //	t
-    '\x00' ; } options	{
-    repeatCount
-= 0
-u128
-    //
-    = false ; i64_
-// trailing space 
-// `tick` ""quote"" 'q'
-= '0' ; //	t
-}
-")).
-Eval vm_compute in ("<<<M1891>>>" ++ check (runes_of_ascii "MetaData
-    u { }  options {
-// c
-// @lengthOf(
-float = = int8 ;rootA =false ; As =	int16 // `tick` ""quote"" 'q'
-repeatCount
-    // trailing space 
-    =
-    int16
-; u8x =
-    //	t
-    '\x00' ; } options	{
-    repeatCount
-= 0
-u128
-    //
-    = false ; i64_
-// trailing space 
-// `tick` ""quote"" 'q'
-= '0' ; //	t
-}
-")).
-Eval vm_compute in ("<<<M1897>>>" ++ check (runes_of_ascii "MetaData
-    u { }  options {
-// c
-// @lengthOf(
-float = ; int8 rootA =false ; As =	int16 // `tick` ""quote"" 'q'
-repeatCount
-    // trailing space 
-    =
-    int16
-; u8x =
-    //	t
-    '\x00' ; } options	{
-    repeatCount
-= 0
-u128
-    //
-    = false ; i64_
-// trailing space 
-// `tick` ""quote"" 'q'
-= '0' ; //	t
-}
-")).
-Eval vm_compute in ("<<<M1947>>>" ++ check (runes_of_ascii "MetaData
-    u { }  options {
-// c
-// @lengthOf(
-float = int8 ;rootA =false ; As =	int16 // `tick` ""quote"" 'q'
-repeatCount
-    // trailing space 
-    int16
-    =
-; u8x =
-    //	t
-    '\x00' ; } options	{
-    repeatCount
-= 0
-u128
-    //
-    = false ; i64_
-// trailing space 
-// `tick` ""quote"" 'q'
-= '0' ; //	t
-}
-")).
-Eval vm_compute in ("<<<M1880>>>" ++ check (runes_of_ascii "MetaData
-    u { }  options 
-// c
-// @lengthOf(
-float = int8 ;rootA =false ; As =	int16 // `tick` ""quote"" 'q'
-repeatCount
-    // trailing space 
-    =
-    int16
-; u8x =
-    //	t
-    '\x00' ; } options	{
-    repeatCount
-= 0
-u128
-    //
-    = false ; i64_
-// trailing space 
-// `tick` ""quote"" 'q'
-= '0' ; //	t
-}
-")).
-Eval vm_compute in ("<<<M555>>>" ++ check (runes_of_ascii "MetaData repeatCount { char[ 4294967296 ]
-BodyLength `it's` , } packet Header { zchar[255] chars `line1
-line2` ,BodyLength
-    // " ++ [128512]%N ++ runes_of_ascii " emoji
-    tag// a // b
-,	} options { body // packet A { u8 x, }
-=""" ++ [28040; 24687]%N ++ runes_of_ascii """// @lengthOf(
-}
-    // `tick` ""quote"" 'q'
-    packet f32a { char metadata `// not a comment` , } /// triple")).
-Eval vm_compute in ("<<<M3913>>>" ++ check (runes_of_ascii "packet i64_ {
-    Z9_ @lengthOf(charz) `doc`,
-    Pad {
-        body @lengthOf(string_) `say ""hi""`,
-        uint64 metadata @lengthOf(Logon) `say ""hi""`,
-        zchar[3] f32a `{ , }`,
-        repeat uint8 leftPad,
-    },
-    char[] _x @lengthOf(As) `
-    `,
-    char[65535] matchKey `// not a comment`,
-}")).
-Eval vm_compute in ("<<<M679>>>" ++ check (runes_of_ascii "MetaData BodyLength { falsey
-    // packet A { u8 x, }
-    Logon  `{ , }` ,u8 int`" ++ [28040; 24687; 31867; 22411]%N ++ runes_of_ascii "`, zchar[7 ]// packet A { u8 x, }
-len/// triple
-,  }  MetaData// @lengthOf(
-u
-    {
-Logon matchKey
-`{ , }`	,	char[42 ]
-// packet A { u8 x, }
-/// triple
-int
-`line1
-line2`,
-    char[ 7
-    ] x_y_z
-    `doc` , }")).
-Eval vm_compute in ("<<<M3307>>>" ++ check (runes_of_ascii "// top
-root // c0
-packet // c1
-matchKey // c2
-{ // c3
-zchar[ // c4
-3 // c5
-] // c6
-pack // c7
-@calculatedFrom( // c8
-""a	b"" // c9
-) // c10
-`doc` // c11
-, // c12
-} // c13
-options // c14
-{ // c15
-} // c16
-MetaData // c17
-A // c18
-{ // c19
-int8 // c20
-msg_type // c21
-, // c22
-} // c23
-")).
-Eval vm_compute in ("<<<M82>>>" ++ check (runes_of_ascii "packet
-zchar {@rightPad (// a // b
-) uint8 a1 `line1
-line2` , @calculatedFrom( ""x y"" ) match pack as	matchKey
-{
-    /// triple
-    """ ++ [28040; 24687]%N ++ runes_of_ascii """  : //x
-u128 ,
-    3 : i64_
-    ""a\""b""
-    : As , } ,
-// " ++ [27880; 37322]%N ++ runes_of_ascii "
-// @lengthOf(
-u8 Packet	@calculatedFrom( ""// no comment"" ) //x
-,
-    }
-//
-")).
-Eval vm_compute in ("<<<M665>>>" ++ check (runes_of_ascii "
-packet
-    // " ++ [27880; 37322]%N ++ runes_of_ascii "
-    Logon
-    { match
-repeatCount as
-    // a // b
-    trueish { 1 //	t
-:
-    int[""" ++ [28040; 24687]%N ++ runes_of_ascii """ , 65535 ,
-// " ++ [27880; 37322]%N ++ runes_of_ascii "
-// a // b
-""{,}"" ,10 ,	42
-,007]: body,[ ""CRC32"" , ""x y"" ]:
-T ,// packet A { u8 x, }
-[ 42 ]: a1 , 7 :chars
-    , } // packet A { u8 x, }
-,}")).
-Eval vm_compute in ("<<<M1515>>>" ++ check (runes_of_ascii "packet
-//	t
-// trailing space 
-_x {
-// packet A { u8 x, }
-// c
-char[
-3
-    uint8 u8x @lengthOf(
-u8x ) , @calculatedFrom(""" ++ [128512]%N ++ runes_of_ascii """ // @lengthOf(
-)
-i16	Foo
-@lengthOf(	string_
-    )`doc`	, repeat	i64 metadata , @lengthOf( string_
-) i8 // c
-u  `line1
-line2`	,
-}
-")).
-Eval vm_compute in ("<<<M1623>>>" ++ check (runes_of_ascii "packet
-//	t
-// trailing space 
-_x {
-// packet A { u8 x, }
-// c
-char[
-3
-    ] u8x @lengthOf(
-u8x ) , @calculatedFrom(""" ++ [128512]%N ++ runes_of_ascii """ // @lengthOf(
-)
-i16	Foo
-@lengthOf(	string_
-    )`doc`	, repeat	i64 metadata , @lengthOf( string_
-) ) i8 // c
-u  `line1
-line2`	,
-}
-")).
-Eval vm_compute in ("<<<M1504>>>" ++ check (runes_of_ascii "packet
-//	t
-// trailing space 
-_x {
-// packet A { u8 x, }
-// c
-3
-char[
-    ] u8x @lengthOf(
-u8x ) , @calculatedFrom(""" ++ [128512]%N ++ runes_of_ascii """ // @lengthOf(
-)
-i16	Foo
-@lengthOf(	string_
-    )`doc`	, repeat	i64 metadata , @lengthOf( string_
-) i8 // c
-u  `line1
-line2`	,
-}
-")).
-Eval vm_compute in ("<<<M1645>>>" ++ check (runes_of_ascii "packet
-//	t
-// trailing space 
-_x {
-// packet A { u8 x, }
-// c
-char[
-3
-    ] u8x @lengthOf(
-u8x ) , @calculatedFrom(""" ++ [128512]%N ++ runes_of_ascii """ // @lengthOf(
-)
-i16	Foo
-@lengthOf(	string_
-    )`doc`	, repeat	i64 metadata , @lengthOf( string_
-) i8 // c
-u  `line1
-line2`	}
-}
-")).
-Eval vm_compute in ("<<<M1557>>>" ++ check (runes_of_ascii "packet
-//	t
-// trailing space 
-_x {
-// packet A { u8 x, }
-// c
-char[
-3
-    ] u8x @lengthOf(
-u8x ) , @calculatedFrom(""" ++ [128512]%N ++ runes_of_ascii """ // @lengthOf(
-)
-	Foo
-@lengthOf(	string_
-    )`doc`	, repeat	i64 metadata , @lengthOf( string_
-) i8 // c
-u  `line1
-line2`	,
-}
-")).
-Eval vm_compute in ("<<<M4418>>>" ++ check (runes_of_ascii "packet tag {
-    int8 packetx,
-}
-
-packet Foo {
-    //x
-    repeatCount @calculatedFrom(""x y""),
-    char[00] As @lengthOf(a1) `crlf
-    line`,
-    @tag(10)
-    len {
-        char[10] matchKey `" ++ [233]%N ++ runes_of_ascii "`,
-        f32a @lengthOf(u128) `it's`,
-    },
-}")).
-Eval vm_compute in ("<<<M854>>>" ++ check (runes_of_ascii "
-packet// packet A { u8 x, }
-Z9_
-    {} MetaData	falsey { string
-    len
-    // " ++ [128512]%N ++ runes_of_ascii " emoji
-    `tab	here` ,
-/// triple
-// `tick` ""quote"" 'q'
-i32 asx ,
-    uint8 pack
-    , } options // " ++ [27880; 37322]%N ++ runes_of_ascii "
-{_x = // trailing space 
-true
-// " ++ [27880; 37322]%N ++ runes_of_ascii "
-// " ++ [27880; 37322]%N ++ runes_of_ascii "
-}
-
-")).
-Eval vm_compute in ("<<<M4377>>>" ++ check (runes_of_ascii "packet Foo {
-    match i64_ as x_y_z {
-        65535 : BodyLength,
-        [3, ""CRC32""] : u,
-        255 : T,
-        [""x y""] : leftPad,
-        0123456789 : As,
-    },
-    zchar[1] int,
-}
-
-packet float {
-    uint16 Packet,
-}")).
-Eval vm_compute in ("<<<M4412>>>" ++ check (runes_of_ascii "
-packet	i64_  {
-match	tag
-as
+{ // c9a
+  // c9b
+u8
+    // c10
 x
-
-    {	""" ++ [128512]%N ++ runes_of_ascii """: string_
-, ""a\\""	: rootA
-	,	""abc""  :pack
-
-,
-	} ,
-
-    @tag(  3 ) // @lengthOf(
-	string 
-metadata
+    // c11
 , string
-
-    stringy
-
-`u8 x,` 
-    // @lengthOf(
-
-  // a // b
-  , }")).
-Eval vm_compute in ("<<<M1220>>>" ++ check (runes_of_ascii "MetaData a1 {char[]  repeatCount
-    `it's`, char[  4294967296 // @lengthOf(
-]
-    i8i8// c
-`// not a comment`
-    // packet A { u8 x, }
-    ,
-// @lengthOf(
-/// triple
-float32 zchar , } packet calculatedFrom{ }
-")).
-Eval vm_compute in ("<<<M1722>>>" ++ check (runes_of_ascii "options { trueish = ""`tick`"" ; string_= """ ++ [233]%N ++ runes_of_ascii "t" ++ [233]%N ++ runes_of_ascii """
-    // c
-    } root root
-    packet body { stringy @calculatedFrom(
-""a	b"" ) `line1
-line2` , }
-packet Logon {
-    @leftPad(
-    ' ' ) //	t
-u16 string_ `u8 x,` ,
+    // c13
+user
+    // c14
+, // c15a
+  // c15b
 }
-")).
-Eval vm_compute in ("<<<M1832>>>" ++ check (runes_of_ascii "options { trueish = ""`tick`"" ; string_= """ ++ [233]%N ++ runes_of_ascii "t" ++ [233]%N ++ runes_of_ascii """
-    // c
-    } root
-    packet body { stringy @calculatedFrom(
-""a	b"" ) `line1
-line2` , }
-packet Logon {
-    @leftPad(
-    ' ' ) //	t
-u16 string_ `u8 x,` ,
-} }
-")).
-Eval vm_compute in ("<<<M1698>>>" ++ check (runes_of_ascii "options { trueish = ""`tick`"" string_ ;= """ ++ [233]%N ++ runes_of_ascii "t" ++ [233]%N ++ runes_of_ascii """
-    // c
-    } root
-    packet body { stringy @calculatedFrom(
-""a	b"" ) `line1
-line2` , }
-packet Logon {
-    @leftPad(
-    ' ' ) //	t
-u16 string_ `u8 x,` ,
-}
-")).
-Eval vm_compute in ("<<<M4109>>>" ++ check (runes_of_ascii "packet A {
-    match k as n {
-        ""\
-                "" : B,
-        [""\
-                "", 1] : C,
-        [
-            1, 2, 3, 4, 5,
-            ""\
-                        ""
-        ] : D,
-    },
-}")).
-Eval vm_compute in ("<<<M1855>>>" ++ check (runes_of_ascii "options { trueish = ""`tick`"" ; a" ++ [769]%N ++ runes_of_ascii "b= """ ++ [233]%N ++ runes_of_ascii "t" ++ [233]%N ++ runes_of_ascii """
-    // c
-    } root
-    packet body { stringy @calculatedFrom(
-""a	b"" ) `line1
-line2` , }
-packet Logon {
-    @leftPad(
-    ' ' ) //	t
-u16 string_ `u8 x,` ,
-}
-")).
-Eval vm_compute in ("<<<M1691>>>" ++ check (runes_of_ascii "options { trueish =  ; string_= """ ++ [233]%N ++ runes_of_ascii "t" ++ [233]%N ++ runes_of_ascii """
-    // c
-    } root
-    packet body { stringy @calculatedFrom(
-""a	b"" ) `line1
-line2` , }
-packet Logon {
-    @leftPad(
-    ' ' ) //	t
-u16 string_ `u8 x,` ,
-}
-")).
-Eval vm_compute in ("<<<M1979>>>" ++ check (runes_of_ascii "MetaData
-    u { }  options {
-// c
-// @lengthOf(
-float = int8 ;rootA =false ; As =	int16 // `tick` ""quote"" 'q'
-repeatCount
-    // trailing space 
-    =
-    int16
-; u8x =
-    //	t
-    '\x00'")).
-Eval vm_compute in ("<<<M1820>>>" ++ check (runes_of_ascii "options { trueish = ""`tick`"" ; string_= """ ++ [233]%N ++ runes_of_ascii "t" ++ [233]%N ++ runes_of_ascii """
-    // c
-    } root
-    packet body { stringy @calculatedFrom(
-""a	b"" ) `line1
-line2` , }
-packet Logon {
-    @leftPad(
-    ' ' ) //	t
-u16")).
-Eval vm_compute in ("<<<M3866>>>" ++ check (runes_of_ascii "packet Logon {
-    repeat u64 a1 `u8 x,`,
-    uint16 string_ @lengthOf(BodyLength),
-    @tag(7)
-    @tag(7)
-    @rightPad(' ')
-    metadata,
-    repeat char[007] Foo `u8 x,`,
-}")).
-Eval vm_compute in ("<<<M1238>>>" ++ check (runes_of_ascii "packet	body {
-    // @lengthOf(
-    body
-    trueish , repeat MetaDataX
-string_,  char[] asx `say ""hi""`
-, char
-// a // b
-// " ++ [128512]%N ++ runes_of_ascii " emoji
-int@calculatedFrom(""packet""
-    )
-,}
-")).
-Eval vm_compute in ("<<<M3949>>>" ++ check (runes_of_ascii "
-options	{
-    Pad  =zchar[
-0 ] ;  tag=char[ 
-4294967296	] ;
-
-    u128  =
-
-    false;	}  MetaData repeatCount 
-{u16
-	u128
-	,} 
-options 
-{  leftPad = '0' ;
-	}
-
-")).
-Eval vm_compute in ("<<<M473>>>" ++ check (runes_of_ascii "packet
-    o {  asx @calculatedFrom( ""CRC32""	)// " ++ [27880; 37322]%N ++ runes_of_ascii "
-`it's`
-    ,// @lengthOf(
-@tag( 255 )
-int16 T	, string
-msg_type `
-`
-, } // trailing space 
-packet Z9_ {	}
-")).
-Eval vm_compute in ("<<<M2117>>>" ++ check (runes_of_ascii "options{
-_x
-= true
-} options
-{ string	= /// triple
-false
-    ; chars
-= ""\n"" } root packet	Pad
-/// triple
-// packet A { u8 x, }
-{	chars
-    // a // b
-    ,}")).
-Eval vm_compute in ("<<<M2422>>>" ++ check (runes_of_ascii "// c
-packet x { @lengthOf( metadata ) repeat lengthOf
-,a1{
-trueish	,// c
-repeat//	t
-MetaDataX , , } , zchar[
-    42	] rootA // `tick` ""quote"" 'q'
-,
-    }
-")).
-Eval vm_compute in ("<<<M2180>>>" ++ check (runes_of_ascii "options{
-_x
-= true
-} options
-{ o	= /// triple
-false
-    ; chars
-= ""\n"" } root packet	Pad
-/// triple
-// packet A { u8 x, }
-{	chars
-    // a // b
-    , ,}")).
-Eval vm_compute in ("<<<M2194>>>" ++ check (runes_of_ascii "options{
-_x
-= true
-} options
-{ o	= /// triple
-false
-    ; chars
-= ""\n"" } root packet	Pad
-/// triple
-// packet A { u8 x, }
-{	chars
-  " ++ [127]%N ++ runes_of_ascii "  // a // b
-    ,}")).
-Eval vm_compute in ("<<<M2131>>>" ++ check (runes_of_ascii "options{
-_x
-= true
-} options
-{ o	= /// triple
-false
-    chars ;
-= ""\n"" } root packet	Pad
-/// triple
-// packet A { u8 x, }
-{	chars
-    // a // b
-    ,}")).
-Eval vm_compute in ("<<<M2139>>>" ++ check (runes_of_ascii "options{
-_x
-= true
-} options
-{ o	= /// triple
-false
-    ; chars
- ""\n"" } root packet	Pad
-/// triple
-// packet A { u8 x, }
-{	chars
-    // a // b
-    ,}")).
-Eval vm_compute in ("<<<M4456>>>" ++ check (runes_of_ascii "
-/// triple
-  	options{
-
-Header 
-=
-    65535 ;	calculatedFrom  =  ""x y""trueish=  true  i8i8=false
-
-    metadata 	 // trailing space 
-=  """ ++ [28040; 24687]%N ++ runes_of_ascii """ 
-;	} ")).
-Eval vm_compute in ("<<<M3763>>>" ++ check (runes_of_ascii "packet A {
-    match k as n {
-        [
-            ""a"", 22, ""c c"", 4, ""e"",
-            66, ""g"", 8, ""i"", 10
-        ] : B,
-        2 : C,
-    },
-}")).
-Eval vm_compute in ("<<<M518>>>" ++ check (runes_of_ascii "
-MetaData packetx
-    {	len Packet ,x
-// `tick` ""quote"" 'q'
-// a // b
-A ,
-matchKey lengthOf `{ , }`
-    , char[
-7 ]
-    Z9_ , A
-    rootA,
-}
-")).
-Eval vm_compute in ("<<<M4429>>>" ++ check (runes_of_ascii "packet  rootA  { } 
-	    // `tick` ""quote"" 'q'
-  /// triple
-	options
-{ 
-stringy
-	=0123456789 ; T= 
-42
-; 
-string_ 
-=
-    ""a\""b""; } 
-//
- 
-")).
-Eval vm_compute in ("<<<M3823>>>" ++ check (runes_of_ascii "packet A {
-    u8 a,
-}
-
-packet B {
-    u16 b,
-}
-
-root packet P {
-    u8 K,
-    match K as M {
-        1 : A,
-        1 : B,
-    },
-}")).
-Eval vm_compute in ("<<<M4615>>>" ++ check (runes_of_ascii "
-options {
-a1  /// triple
-  	= ""1"" 
-;
-
-    trueish
-
-= i64
-    ; stringy
-=
-
-""" ++ [128512]%N ++ runes_of_ascii """ ;
-u8x 
-=
-255
-
-    ;
-	u128
-=""`tick`""
-; }
-
-")).
-Eval vm_compute in ("<<<M1009>>>" ++ check (runes_of_ascii "root packet // @lengthOf(
-options1
-{ repeat f32a, @calculatedFrom( ""\n"" )
-    i8 Packet ,
-    }  options { a1 = uint64  ;
-}")).
-Eval vm_compute in ("<<<M3316>>>" ++ check (runes_of_ascii "root packet matchKey // c
-{ zchar[ 3 ] pack @calculatedFrom( ""a	b"" ) `doc` , } options { } MetaData A { int8 msg_type , }")).
-Eval vm_compute in ("<<<M3348>>>" ++ check (runes_of_ascii "root packet matchKey { zchar[ 3 ] pack @calculatedFrom( ""a	b"" ) `doc` , } options { } MetaData A // c
-{ int8 msg_type , }")).
-Eval vm_compute in ("<<<M4183>>>" ++ check (runes_of_ascii "MetaData msg_type {
-    Packet int,
-    char[3] Foo `// not a comment`,
-    zchar[7] uint8x,
-    leftPad crc `
-    `,
-}")).
-Eval vm_compute in ("<<<M1424>>>" ++ check (runes_of_ascii "
+    // c16
+packet // c17a
+  // c17b
+Logout
+    // c18
+{ // c19
+u16 // c20
+reason // c21a
+  // c21b
+, } // c23a
+  // c23b
 packet
-    falsey { Header@calculatedFrom()  ""packet"" , char[
-    0123456789 ] packetx
-    , } // `tick` ""quote"" 'q'")).
-Eval vm_compute in ("<<<M3970>>>" ++ check (runes_of_ascii "
-packet chars
-
-{
+    // c24
+Empty // c25a
+  // c25b
+{ // c26
+} // c27a
+  // c27b
+root
+    // c28
+packet Frame // c30
+{ u16 // c32
+MsgType , u16 BodyLen // c36
+@lengthOf( // c37
+Body // c38
+) , // c40a
+  // c40b
+u8 // c41
+flags , Logon Body
+    // c45
+, // c46
+u32 trailer , // c49a
+  // c49b
 }
-	packet
-	MetaDataX // c
-  {  @tag(
-42 ) i16
-string_
-	,
-    repeat x
-
-    `say ""hi""` ,
-
-    }")).
-Eval vm_compute in ("<<<M814>>>" ++ check (runes_of_ascii "packet MetaDataX // c
+    // c50
+")).
+Eval vm_compute in ("<<<M1495>>>" ++ check (runes_of_ascii "// top
+packet // c0a
+  // c0b
+A { // c2
+u8 // c3a
+  // c3b
+a , } // c6a
+  // c6b
+packet // c7a
+  // c7b
+B // c8
+{ // c9a
+  // c9b
+u16
+    // c10
+b // c11a
+  // c11b
+, // c12a
+  // c12b
+}
+    // c13
+root // c14a
+  // c14b
+packet // c15
+P
+    // c16
 {
-i8i8  @calculatedFrom( ""a\""b"") `
-`
-    ,@calculatedFrom(""a\\"" )leftPad , }
+    // c17
+u8 // c18
+K // c19
+, // c20a
+  // c20b
+match
+    // c21
+K
+    // c22
+as // c23a
+  // c23b
+M // c24
+{ // c25
+[
+    // c26
+1 // c27a
+  // c27b
+, // c28
+2
+    // c29
+]
+    // c30
+: A // c32a
+  // c32b
+, // c33a
+  // c33b
+3 :
+    // c35
+B , // c37a
+  // c37b
+7 // c38a
+  // c38b
+: // c39a
+  // c39b
+A
+    // c40
+, } , } // c44a
+  // c44b
+")).
+Eval vm_compute in ("<<<M126>>>" ++ check (runes_of_ascii "root packet pack { @calculatedFrom(	""`tick`"")
+    @calculatedFrom(
+    // " ++ [128512]%N ++ runes_of_ascii " emoji
+    ""\n"" ) @tag( 0123456789 )match zchar as string_ {	[ ""packet"" ] //
+:  i8i8 , [
+0123456789 , 7	] :string_ ,
+//x
+// `tick` ""quote"" 'q'
+0 : options1 ,
+""\" ++ [233]%N ++ runes_of_ascii """
+:// `tick` ""quote"" 'q'
+Foo	,}
+, @lengthOf(	calculatedFrom )
+Foo	@lengthOf(
+    x)
+`crlf
+line`
+, lengthOf @lengthOf(int )  ,T , @lengthOf(  rootA) zchar[
+007 ]
 // " ++ [128512]%N ++ runes_of_ascii " emoji
+// packet A { u8 x, }
+x`crlf
+line` , @calculatedFrom(
+    ""\n""	) repeat f64	chars
+, matchKey _x, }")).
+Eval vm_compute in ("<<<M1492>>>" ++ check (runes_of_ascii "// top
+packet // c0
+A
+    // c1
+{ // c2a
+  // c2b
+u8 // c3a
+  // c3b
+a // c4a
+  // c4b
+, } packet // c7
+B
+    // c8
+{ // c9
+u16 // c10
+b , // c12a
+  // c12b
+} // c13
+root // c14a
+  // c14b
+packet P // c16
+{ u8 // c18
+K // c19
+, // c20a
+  // c20b
+match // c21a
+  // c21b
+K
+    // c22
+as // c23a
+  // c23b
+M
+    // c24
+{
+    // c25
+1 // c26a
+  // c26b
+: // c27
+A // c28
+, 1 : // c31a
+  // c31b
+B // c32
+, // c33
+} // c34
+,
+    // c35
+} // c36
 ")).
-Eval vm_compute in ("<<<M47>>>" ++ check (runes_of_ascii "options
-{ options1= uint64 ;	}
-root packet /// triple
-T {MetaDataX//x
-`// not a comment` , } packet crc {}
+Eval vm_compute in ("<<<M365>>>" ++ check (runes_of_ascii "root
+packet //x
+pack
+{ match matchKey //	t
+as
+int // @lengthOf(
+{ 00 : metadata
+    ,
+    ""a\\""
+    : o ,
+""// no comment"" :// `tick` ""quote"" 'q'
+x ,
+[
+""packet""] : A
+, [ ""\n"",0123456789 , 00 , ""// no comment"" ,007 ,
+255,
+1 ,// c
+0 ]
+    // a // b
+    : metadata ,[ 00] : Pad ,} , } // @lengthOf(
+MetaData tag
+{uint64 i64_`doc` ,
+    } packet BodyLength { repeat
+u32
+u128 , }
 ")).
-Eval vm_compute in ("<<<M3833>>>" ++ check (runes_of_ascii "
-packet A {	match k
-	as
+Eval vm_compute in ("<<<M1570>>>" ++ check (runes_of_ascii "options {
+    FixedStringPadFromLeft = true;
+    FixedStringPadChar = ' ';
+}
+packet Reject {
+}
+packet Fill {
+    repeat i16 Tail,
+}
+root packet Trade {
+    float64 Ref,
+    Fill,
+    u8 Note,
+    u16 count @lengthOf(Body),
+    match Note as Body {
+        [98, 101] : Fill,
+        34 : Reject,
+    },
+    u32 x @calculatedFrom(""CR\
+C32""),
+}
+")).
+Eval vm_compute in ("<<<M2115>>>" ++ check (runes_of_ascii "
 
-n {
+  // `tick` ""quote"" 'q'
+MetaData  pack
+    { string 
+MetaDataX 
+,//
+  zchar[	65535
+	]
+	i8i8 , pack
+rootA
 
-    [""a"",
-
-    ""bb""
-
+`say ""hi""` ,string_  Header`crlf
+line` 
 ,
 
-    007 ,
-""d""
+int64
+string_
+    , 
 
-] :
+/// triple
+	//	t
+char[] packetx  ,
+}options 
+{trueish=
+' ';
+i64_= i16 pack  =  u16
+
+;
+	len=
+    false	}	MetaData
+i64_{ }
+")).
+Eval vm_compute in ("<<<M667>>>" ++ check (runes_of_ascii "root packet tag { }  packet MetaDataX{char[@lengthOf 007	]
+// c
+/// triple
+asx  @calculatedFrom( ""a\""b""
+) `say ""hi""`// " ++ [27880; 37322]%N ++ runes_of_ascii "
+,  @tag(4294967296 )
+    char[1//x
+] packetx @calculatedFrom(""a\""b""
+    ) ,
+// " ++ [128512]%N ++ runes_of_ascii " emoji
+// a // b
+@calculatedFrom(""" ++ [233]%N ++ runes_of_ascii "t" ++ [233]%N ++ runes_of_ascii """  ) repeat pack // " ++ [27880; 37322]%N ++ runes_of_ascii "
+,
+    } // c")).
+Eval vm_compute in ("<<<M1460>>>" ++ check (runes_of_ascii "packet B { // c2
+u8 a ,
+    // c5
+}
+    // c6
+root // c7
+packet P { u8
+    // c11
+K // c12
+, // c13
+match K as Body
+    // c17
+{ // c18a
+  // c18b
+1 : B // c21
+,
+    // c22
+} ,
+    // c24
+u16 // c25
+L // c26
+@lengthOf(
+    // c27
+Body // c28
+)
+    // c29
+, }
+    // c31
+")).
+Eval vm_compute in ("<<<M520>>>" ++ check (runes_of_ascii "root packet tag { }  packet MetaDataX{007 char[	]
+// c
+/// triple
+asx  @calculatedFrom( ""a\""b""
+) `say ""hi""`// " ++ [27880; 37322]%N ++ runes_of_ascii "
+,  @tag(4294967296 )
+    char[1//x
+] packetx @calculatedFrom(""a\""b""
+    ) ,
+// " ++ [128512]%N ++ runes_of_ascii " emoji
+// a // b
+@calculatedFrom(""" ++ [233]%N ++ runes_of_ascii "t" ++ [233]%N ++ runes_of_ascii """  ) repeat pack // " ++ [27880; 37322]%N ++ runes_of_ascii "
+,
+    } // c")).
+Eval vm_compute in ("<<<M560>>>" ++ check (runes_of_ascii "root packet tag { }  packet MetaDataX{char[007	]
+// c
+/// triple
+asx  @calculatedFrom( ""a\""b""
+) `say ""hi""`// " ++ [27880; 37322]%N ++ runes_of_ascii "
+@tag(  ,4294967296 )
+    char[1//x
+] packetx @calculatedFrom(""a\""b""
+    ) ,
+// " ++ [128512]%N ++ runes_of_ascii " emoji
+// a // b
+@calculatedFrom(""" ++ [233]%N ++ runes_of_ascii "t" ++ [233]%N ++ runes_of_ascii """  ) repeat pack // " ++ [27880; 37322]%N ++ runes_of_ascii "
+,
+    } // c")).
+Eval vm_compute in ("<<<M648>>>" ++ check (runes_of_ascii "root packet tag { }  packet MetaDataX{char[007	]
+// c
+/// triple
+asx  @calculatedFrom( ""a\""b""
+) `say ""hi""`// " ++ [27880; 37322]%N ++ runes_of_ascii "
+,  @tag(4294967296 )
+    char[1//x
+] packetx @calculatedFrom(""a\""b""
+    ) ,
+// " ++ [128512]%N ++ runes_of_ascii " emoji
+// a // b
+@calculatedFrom(""" ++ [233]%N ++ runes_of_ascii "t" ++ [233]%N ++ runes_of_ascii """  ) repeat pack // " ++ [27880; 37322]%N ++ runes_of_ascii "
+,
+     // c")).
+Eval vm_compute in ("<<<M543>>>" ++ check (runes_of_ascii "root packet tag { }  packet MetaDataX{char[007	]
+// c
+/// triple
+asx  @calculatedFrom( 
+) `say ""hi""`// " ++ [27880; 37322]%N ++ runes_of_ascii "
+,  @tag(4294967296 )
+    char[1//x
+] packetx @calculatedFrom(""a\""b""
+    ) ,
+// " ++ [128512]%N ++ runes_of_ascii " emoji
+// a // b
+@calculatedFrom(""" ++ [233]%N ++ runes_of_ascii "t" ++ [233]%N ++ runes_of_ascii """  ) repeat pack // " ++ [27880; 37322]%N ++ runes_of_ascii "
+,
+    } // c")).
+Eval vm_compute in ("<<<M1177>>>" ++ check (runes_of_ascii "// top
+MetaData // c0a
+  // c0b
+float // c1
+{
+    // c2
+float64 // c3
+charz // c4a
+  // c4b
+`
+`
+    // c5
+,
+    // c6
+} root // c8
+packet // c9a
+  // c9b
+chars
+    // c10
+{ @rightPad ( '0' // c14
+)
+    // c15
+Foo
+    // c16
+,
+    // c17
+} ")).
+Eval vm_compute in ("<<<M1175>>>" ++ check (runes_of_ascii "// top
+MetaData // c0
+float // c1
+{ // c2
+float64 // c3
+charz // c4
+`
+` // c5
+, // c6
+} // c7
+root // c8
+packet // c9
+chars // c10
+{ // c11
+@rightPad // c12
+( // c13
+'0' // c14
+) // c15
+Foo // c16
+, // c17
+} // c18
+")).
+Eval vm_compute in ("<<<M162>>>" ++ check (runes_of_ascii "MetaData
+    lengthOf
+{
+char[0123456789] calculatedFrom ,
+char[ 0
+]
+options1
+    ,
+    } MetaData  repeatCount
+{ // packet A { u8 x, }
+u64 len ,
+    stringy x_y_z `it's` // a // b
+, f32 As ,	}
+")).
+Eval vm_compute in ("<<<M295>>>" ++ check (runes_of_ascii "  MetaData x_y_z { string msg_type`" ++ [233]%N ++ runes_of_ascii "`, } packet chars{ repeat i32 metadata`say ""hi""` ,@leftPad ( ) @tag( 0123456789
+)repeat zchar[
+    // a // b
+    007]
+    //x
+    lengthOf , }
+")).
+Eval vm_compute in ("<<<M407>>>" ++ check (runes_of_ascii "packet
+    // `tick` ""quote"" 'q'
+    crc
+// packet A { u8 x, }
+//	t
+{
+u32 65535 ,
+    // trailing space 
+    roots
+charz //
+`two words`,	}
+    MetaData int {
+} /// triple")).
+Eval vm_compute in ("<<<M684>>>" ++ check (runes_of_ascii "root packet len // trailing space 
+{
+// " ++ [27880; 37322]%N ++ runes_of_ascii "
+//	t
+char[10
+] metadata	@lengthOf( o ) `crlf
+line`,
+    '@rightPad
+( ' '
+) string
+    Header @calculatedFrom( ""a\\""
+    ), }
+")).
+Eval vm_compute in ("<<<M709>>>" ++ check (runes_of_ascii "root packet len // trailing space 
+{
+// " ++ [27880; 37322]%N ++ runes_of_ascii "
+//	t
+char[10
+] metadata	@lengthOf( o ) `crlf
+line`@rightPad
+    ,
+( ' '
+) string
+    Header @calculatedFrom( ""a\\""
+    ), }
+")).
+Eval vm_compute in ("<<<M477>>>" ++ check (runes_of_ascii "packet
+    // `tick` ""quote"" 'q'
+    crc
+// packet A { u8 x, }
+//	t
+{
+u32 a1 ,
+    // trailing space 
+    " ++ [21517; 23383]%N ++ runes_of_ascii "
+charz //
+`two words`,	}
+    MetaData int {
+} /// triple")).
+Eval vm_compute in ("<<<M234>>>" ++ check (runes_of_ascii "options
+{ f32a= zchar[3
+//
+// c
+]
+// " ++ [128512]%N ++ runes_of_ascii " emoji
+//	t
+}	packet falsey
+{
+Z9_ ,body
+    @calculatedFrom( //
+""\n""
+// packet A { u8 x, }
+// c
+)
+    ,} options { }
+")).
+Eval vm_compute in ("<<<M1455>>>" ++ check (runes_of_ascii "packet B
+
+{
+	u8
+a
+, }
+    root
+	packet
+    P {u8
+K
+
+    ,u8
+L
+    @lengthOf( Body
+) ,	match
+K
+as
+Body {	1
+
+    :
 	B
 
-    ,  2 
-:
-	C
-}, }
+    ,	}
 
-")).
-Eval vm_compute in ("<<<M4329>>>" ++ check (runes_of_ascii "
-
-  options
-
-{
-	LittleEndian 
-=
-    true
-
-    ; } root packet P{  repeat char
-    cs
-,
-
-u8 x
-    , 
-}")).
-Eval vm_compute in ("<<<M758>>>" ++ check (runes_of_ascii "
-options {
-    rootA
-    =	i64 i64_ = true matchKey
-='\x00'  charz // packet A { u8 x, }
-=false ; }")).
-Eval vm_compute in ("<<<M2983>>>" ++ check (runes_of_ascii "packet A {
-  match k as n {
-    [1, 22, ""c c"", 4, 5, ""f"", 7, 8, ""i"", 10, 11] : B,
-    2 : C
-  },
-}")).
-Eval vm_compute in ("<<<M4016>>>" ++ check (runes_of_ascii "options {
-    options1 = char[00];
-    len = """ ++ [128512]%N ++ runes_of_ascii """;
-    a1 = 42
-    Header = ' '
+    ,
 }
-
-packet Foo {
-}")).
-Eval vm_compute in ("<<<M2975>>>" ++ check (runes_of_ascii "packet A {
-  match k as n {
-    [1, 22, 007, 4, 5, 66, 7, 8, 9, 10, 11] : B,
-    2 : C
-  },
-}")).
-Eval vm_compute in ("<<<M3566>>>" ++ check (runes_of_ascii "
-
-  root
-packet
-
-    P {
-
-u16 a
-,u32	Sum
-	@calculatedFrom(
-
-    ""CRC32""
-
-    ) , 
-} ")).
-Eval vm_compute in ("<<<M2940>>>" ++ check (runes_of_ascii "packet A {
-  match k as n {
-    [1, ""bb"", 007, ""d"", 5, ""f"", 7, ""h""] : B,
-    2 : C
-  },
-}")).
-Eval vm_compute in ("<<<M3296>>>" ++ check (runes_of_ascii "MetaData float { float64 charz `
-` , } root packet chars { @rightPad (
-// c
-'0' ) Foo , }")).
-Eval vm_compute in ("<<<M3507>>>" ++ check (runes_of_ascii "packet chars { } packet MetaDataX { @tag( 42 ) i16 string_ // c
-, repeat x `say ""hi""` , }")).
-Eval vm_compute in ("<<<M2746>>>" ++ check (runes_of_ascii "`// not a comment` true ' ' ; packet i8 int8 @calculatedFrom( string u32 = string char[]")).
-Eval vm_compute in ("<<<M4013>>>" ++ check (runes_of_ascii "packet A {
-    match k as n {
-        [1, 22, ""c c"", 4, 5] : B,
-        2 : C,
-    },
-}")).
-Eval vm_compute in ("<<<M3215>>>" ++ check (runes_of_ascii "packet metadata // c
-{ Logon { A `" ++ [28040; 24687; 31867; 22411]%N ++ runes_of_ascii "` , tag o , } , zchar len `// not a comment` , }")).
-Eval vm_compute in ("<<<M3428>>>" ++ check (runes_of_ascii "
-// c
-packet o { repeat Logon uint8x , } options { asx = zchar[ 3 ] stringy = '\x00' }")).
-Eval vm_compute in ("<<<M3438>>>" ++ check (runes_of_ascii "packet o { repeat Logon
-// c
-uint8x , } options { asx = zchar[ 3 ] stringy = '\x00' }")).
-Eval vm_compute in ("<<<M2259>>>" ++ check (runes_of_ascii "options
-{ } options { BodyLength= u16 Header= ] ; u128 =
-    true
-    ; } // a // b")).
-Eval vm_compute in ("<<<M4306>>>" ++ check (runes_of_ascii "packet Inner { u8
-a ,} root
-
-packet
-
-    P
-
-{ 
-repeat
-Inner
-items ,
-u8 x  ,}
-
 ")).
-Eval vm_compute in ("<<<M3413>>>" ++ check (runes_of_ascii "MetaData body { i64 pack `it's` , } packet stringy
+Eval vm_compute in ("<<<M1977>>>" ++ check (runes_of_ascii "packet
+	A
+
+    { match
+
+    k as
+
+n {	[	""a""	,""bb""
+,
+007 ,
+
+""d""
+	, ""e"" ,
+
+66, ""g""
+    ,
+""h"" ,	9,
+    ""j"" ,
+""k"" ] : B	, 
+2
+:C
+
+}
+	,  } ")).
+Eval vm_compute in ("<<<M1608>>>" ++ check (runes_of_ascii "
+MetaData
+
+    float
+    {
+	float64
+
+    charz
+
+    `
+` ,
+    }root packet chars
+
+    {
+@rightPad (// c
+    	'0')	Foo, }
+")).
+Eval vm_compute in ("<<<M1459>>>" ++ check (runes_of_ascii "packet B {
+    u8 a,
+}
+root packet P {
+    u8 K,
+    match K as Body {
+        1 : B,
+    },
+    u16 L @lengthOf(Body),
+}
+")).
+Eval vm_compute in ("<<<M1251>>>" ++ check (runes_of_ascii "root packet matchKey { zchar[ 3 ] pack @calculatedFrom( ""a	b"" ) `doc` , } options // c
+{ } MetaData A { int8 msg_type , }")).
+Eval vm_compute in ("<<<M1878>>>" ++ check (runes_of_ascii "packet metadata {
+    Logon {
+        // c
+        A `" ++ [28040; 24687; 31867; 22411]%N ++ runes_of_ascii "`,
+        tag o,
+    },
+    zchar len `// not a comment`,
+}")).
+Eval vm_compute in ("<<<M1935>>>" ++ check (runes_of_ascii "MetaData body {
+    BodyLength stringy,
+    //	t
+    zchar[42] o,
+    i64_ lengthOf `{ , }`,
+    u8 MetaDataX,
+}")).
+Eval vm_compute in ("<<<M2066>>>" ++ check (runes_of_ascii "MetaData
+float
+{  float64 charz `
+`,
+	}
+    root	packet
+	chars{ @rightPad ( 
+	    // c
+	'0'	)
+
+Foo
+, }
+")).
+Eval vm_compute in ("<<<M1480>>>" ++ check (runes_of_ascii "// top
+root // c0a
+  // c0b
+packet P // c2a
+  // c2b
+{ // c3
+string
+    // c4
+s
+    // c5
+,
+    // c6
+} ")).
+Eval vm_compute in ("<<<M460>>>" ++ check (runes_of_ascii "packet
+    // `tick` ""quote"" 'q'
+    crc
+// packet A { u8 x, }
+//	t
+{
+u32 a1 ,
+    // trailing space")).
+Eval vm_compute in ("<<<M850>>>" ++ check (runes_of_ascii "packet A {
+  match k as n {
+    [""a"", ""bb"", ""c c"", ""d"", ""e"", ""f"", ""g"", ""h""] : B
+    2 : C
+  },
+}")).
+Eval vm_compute in ("<<<M1838>>>" ++ check (runes_of_ascii "packet
+	A
+
+    {
+match
+k as
+	n  {
+[ // a
+  1 // b
+
+  , // c
+2	]	// d
+	:B  } ,
+
+    }
+")).
+Eval vm_compute in ("<<<M873>>>" ++ check (runes_of_ascii "packet A {
+  match k as n {
+    [1, 22, 007, 4, 5, 66, 7, 8, 9, 10] : B,
+    2 : C
+  },
+}")).
+Eval vm_compute in ("<<<M1210>>>" ++ check (runes_of_ascii "MetaData float { float64 charz `
+` , } root packet chars { @rightPad ( '0' ) // c
+Foo , }")).
+Eval vm_compute in ("<<<M1421>>>" ++ check (runes_of_ascii "packet chars { } packet MetaDataX { @tag( 42 ) i16 string_ ,
 // c
-{ int16 calculatedFrom , }")).
+repeat x `say ""hi""` , }")).
+Eval vm_compute in ("<<<M129>>>" ++ check (runes_of_ascii "MetaData
+    charz { } packet
+    // " ++ [27880; 37322]%N ++ runes_of_ascii "
+    matchKey {
+    a1
+    repeatCount
+    , }
+")).
+Eval vm_compute in ("<<<M1151>>>" ++ check (runes_of_ascii "packet metadata { Logon { A `" ++ [28040; 24687; 31867; 22411]%N ++ runes_of_ascii "` , tag o , } , zchar
+// c
+len `// not a comment` , }")).
+Eval vm_compute in ("<<<M1356>>>" ++ check (runes_of_ascii "packet o { repeat Logon uint8x , } options // c
+{ asx = zchar[ 3 ] stringy = '\x00' }")).
+Eval vm_compute in ("<<<M1734>>>" ++ check (runes_of_ascii "MetaData falsey {
+    //x
+    //	t
+    char[65535] Packet `{ , }`,// @lengthOf(
+}//x")).
+Eval vm_compute in ("<<<M1317>>>" ++ check (runes_of_ascii "MetaData body { i64 pack `it's` , // c
+} packet stringy { int16 calculatedFrom , }")).
 Eval vm_compute in ("<<<M282>>>" ++ check (runes_of_ascii "
 packet charz{ repeat u16 Foo`{ , }`// c
 ,
@@ -2470,152 +1084,87 @@ packet charz{ repeat u16 Foo`{ , }`// c
 //
 } options
     { crc = """ ++ [28040; 24687]%N ++ runes_of_ascii """ ;	}")).
-Eval vm_compute in ("<<<M3250>>>" ++ check (runes_of_ascii "// top
-root
+Eval vm_compute in ("<<<M805>>>" ++ check (runes_of_ascii "packet A {
+  match k as n {
+    [""a"", ""bb"", 007, ""d""] : B,
+    2 : C
+  },
+}")).
+Eval vm_compute in ("<<<M1773>>>" ++ check (runes_of_ascii "
+packet x
+{
+@rightPad
+// c
+  ( ) repeat roots
+Logon
+    `doc` ,
+}")).
+Eval vm_compute in ("<<<M782>>>" ++ check (runes_of_ascii "packet A {
+  match k as n {
+    [1, 22, 007] : B,
+    2 : C
+  },
+}")).
+Eval vm_compute in ("<<<M1379>>>" ++ check (runes_of_ascii "// top
+MetaData
     // c0
-packet
+o
     // c1
-pack
+{
     // c2
-{
+}
     // c3
-}
-    // c4
 ")).
-Eval vm_compute in ("<<<M4269>>>" ++ check (runes_of_ascii "MetaData
-// a // b
-	options1
-
-{
-	Pad
-    options1 ,  // " ++ [27880; 37322]%N ++ runes_of_ascii "
-} 
-// " ++ [128512]%N ++ runes_of_ascii " emoji
- 
-")).
-Eval vm_compute in ("<<<M2891>>>" ++ check (runes_of_ascii "packet A {
+Eval vm_compute in ("<<<M1277>>>" ++ check (runes_of_ascii "packet
+// c
+x { @rightPad ( ) repeat roots Logon `doc` , }")).
+Eval vm_compute in ("<<<M769>>>" ++ check (runes_of_ascii "packet A {
   match k as n {
-    [""a"", 22, ""c c"", 4] : B
+    [1] : B
     2 : C
   },
 }")).
-Eval vm_compute in ("<<<M4609>>>" ++ check (runes_of_ascii "// trailing space 
-
-packet /// triple
-Foo{  zchar[	255
-
-]  body	,  }
-
-")).
-Eval vm_compute in ("<<<M2880>>>" ++ check (runes_of_ascii "packet A {
-  match k as n {
-    [1, 22, ""c c""] : B
-    2 : C
-  },
-}")).
-Eval vm_compute in ("<<<M976>>>" ++ check (runes_of_ascii "// trailing space 
-packet/// triple
-Foo
-{ zchar[ 255 ]body	,
-}
-")).
-Eval vm_compute in ("<<<M1446>>>" ++ check (runes_of_ascii "
-packet
-    falsey { Header@calculatedFrom(""packet""  ) , char[")).
-Eval vm_compute in ("<<<M2665>>>" ++ check (runes_of_ascii "options { a = true; b = false; c = '0'; d = ""s""; e = 007; }")).
-Eval vm_compute in ("<<<M3372>>>" ++ check (runes_of_ascii "packet x { @rightPad
-// c
-( ) repeat roots Logon `doc` , }")).
-Eval vm_compute in ("<<<M824>>>" ++ check (runes_of_ascii "options
-    { float	=
-// " ++ [128512]%N ++ runes_of_ascii " emoji
-// @lengthOf(
-string }
-")).
-Eval vm_compute in ("<<<M327>>>" ++ check (runes_of_ascii "options {
-_x = 0
-; As = zchar[ 4294967296 ] ; } //x")).
-Eval vm_compute in ("<<<M3769>>>" ++ check (runes_of_ascii "root
-	packet
-
-    A{ u8  x
-	`a
-    b
-  c`
-, }
-")).
-Eval vm_compute in ("<<<M755>>>" ++ check (runes_of_ascii "MetaData
-u8x{ a1
-float// trailing space 
-, }
-")).
-Eval vm_compute in ("<<<M687>>>" ++ check (runes_of_ascii "packet leftPad { u64 Foo
-,
-// c
-// a // b
-}
-")).
-Eval vm_compute in ("<<<M4166>>>" ++ check (runes_of_ascii "
-packet
+Eval vm_compute in ("<<<M739>>>" ++ check (runes_of_ascii "u8 : uint16 f32 zchar @calculatedFrom( ] ' ' ' '")).
+Eval vm_compute in ("<<<M2113>>>" ++ check (runes_of_ascii "packet
     A
+    {
 
-{
-	u8
-
-x
-
-`d" ++ [133]%N ++ runes_of_ascii "`,	// c" ++ [133]%N ++ runes_of_ascii "
-	}
+    } 
+        // c" ++ [6158]%N ++ runes_of_ascii "
 ")).
-Eval vm_compute in ("<<<M3194>>>" ++ check (runes_of_ascii "root packet u128
+Eval vm_compute in ("<<<M1105>>>" ++ check (runes_of_ascii "root packet u128
 // c
 { chars `it's` , }")).
-Eval vm_compute in ("<<<M2560>>>" ++ check (runes_of_ascii "packet A { repeat u8 x @lengthOf(y), }")).
-Eval vm_compute in ("<<<M2803>>>" ++ check (runes_of_ascii "]$_nDRt.|X+""9273[j3IdN7 pv0zmf0e*8[2")).
-Eval vm_compute in ("<<<M56>>>" ++ check (runes_of_ascii "// `tick` ""quote"" 'q'
-
-/// triple
+Eval vm_compute in ("<<<M243>>>" ++ check (runes_of_ascii "// c
+root packet
+calculatedFrom { }
 ")).
-Eval vm_compute in ("<<<M2733>>>" ++ check (runes_of_ascii "}6.&v:_D^b!EF*T3wXu*H*=10%2uRO\IT")).
-Eval vm_compute in ("<<<M4469>>>" ++ check (runes_of_ascii "
+Eval vm_compute in ("<<<M1598>>>" ++ check (runes_of_ascii "packet A {
+    u8 x `d" ++ [8192]%N ++ runes_of_ascii "`,// c" ++ [8192]%N ++ runes_of_ascii "
+}")).
+Eval vm_compute in ("<<<M1870>>>" ++ check (runes_of_ascii "
 
-  packet A{u8
-x`d `,	// c 
-	}")).
-Eval vm_compute in ("<<<M3077>>>" ++ check (runes_of_ascii "packet A {
- u8 x `d" ++ [133]%N ++ runes_of_ascii "`, // c" ++ [133]%N ++ runes_of_ascii "
-}")).
-Eval vm_compute in ("<<<M463>>>" ++ check (runes_of_ascii "packet chars { i64 pack , }
+  packet BodyLength{
+    }
+
 ")).
-Eval vm_compute in ("<<<M3031>>>" ++ check (runes_of_ascii "packet A {
-    u8 x `x
-`,
-}")).
-Eval vm_compute in ("<<<M2579>>>" ++ check (runes_of_ascii "packet A { char[ x ] y, }")).
-Eval vm_compute in ("<<<M2597>>>" ++ check (runes_of_ascii "packet A { B { u8 x, } }")).
-Eval vm_compute in ("<<<M3719>>>" ++ check (runes_of_ascii "options {
-    a = 1;
-}")).
-Eval vm_compute in ("<<<M2645>>>" ++ check (runes_of_ascii "MetaData M { u8 x, }")).
-Eval vm_compute in ("<<<M2670>>>" ++ check (runes_of_ascii "options options { }")).
-Eval vm_compute in ("<<<M3070>>>" ++ check (runes_of_ascii "packet A {
+Eval vm_compute in ("<<<M2087>>>" ++ check (runes_of_ascii "
+packet
+A{
+	}
+    // c" ++ [133]%N ++ runes_of_ascii "
+")).
+Eval vm_compute in ("<<<M2132>>>" ++ check (runes_of_ascii "// c" ++ [8239]%N ++ runes_of_ascii "
+packet A
+
+{
 }
-// c" ++ [160]%N)).
-Eval vm_compute in ("<<<M4506>>>" ++ check (runes_of_ascii "MetaData zchar {
+")).
+Eval vm_compute in ("<<<M987>>>" ++ check (runes_of_ascii "// c" ++ [133]%N ++ runes_of_ascii "
+packet A {
 }")).
-Eval vm_compute in ("<<<M3138>>>" ++ check (runes_of_ascii "packet A {
-}// c" ++ [6158]%N)).
-Eval vm_compute in ("<<<M233>>>" ++ check (runes_of_ascii "
-options { }
-")).
-Eval vm_compute in ("<<<M2225>>>" ++ check (runes_of_ascii "options
-{ }")).
-Eval vm_compute in ("<<<M1685>>>" ++ check (runes_of_ascii "options {")).
-Eval vm_compute in ("<<<M2449>>>" ++ check (runes_of_ascii "trueish")).
-Eval vm_compute in ("<<<M4140>>>" ++ check (runes_of_ascii "// c" ++ [133]%N ++ runes_of_ascii "
-")).
-Eval vm_compute in ("<<<M3099>>>" ++ check (runes_of_ascii "// c" ++ [8233]%N)).
-Eval vm_compute in ("<<<M2546>>>" ++ check (runes_of_ascii "a
-b")).
-Eval vm_compute in ("<<<M2550>>>" ++ check (runes_of_ascii "a" ++ [12]%N ++ runes_of_ascii "b")).
-Eval vm_compute in ("<<<M2684>>>" ++ check (runes_of_ascii "		")).
+Eval vm_compute in ("<<<M725>>>" ++ check (runes_of_ascii "// only a comment")).
+Eval vm_compute in ("<<<M1991>>>" ++ check (runes_of_ascii "MetaData o {
+}")).
+Eval vm_compute in ("<<<M970>>>" ++ check (runes_of_ascii "// c ")).
+Eval vm_compute in ("<<<M723>>>" ++ check (runes_of_ascii "")).
